@@ -74,6 +74,58 @@ theorem headFacts_of (s : Str) (h : headFactsB s = true) : HeadFacts s := by
   · assumption
   · cases h0
 
+/-- on a line that begins with a pipe no token type before `Table` starts -/
+theorem pipe_headFacts (s : Str) : HeadFacts ('|' :: s) := by
+  have hsp : pyIsSpace '|' = false := by decide
+  have hup : upTo3Spaces ('|' :: s) = some (0, '|' :: s) := by simp [upTo3Spaces, countLeading]
+  refine ⟨?_, ?_, ?_, ?_, ?_, ?_, ?_, by simp⟩
+  · have hlt : '|' ≠ '<' := by decide
+    have hl : lstrip ('|' :: s) = '|' :: s := by simp [lstrip, hsp]
+    unfold htmlBlockStart
+    simp only [hl]
+    have hlen : ¬ (('|' :: s).length - ('|' :: s).length ≥ 4) := by simp
+    simp only [hlen, if_false]
+    have hm : multiblock ('|' :: s) = none := by unfold multiblock; split <;> simp_all
+    have hs : ∀ p : Str, startsWith ('<' :: p) ('|' :: s) = false := by
+      intro p; simp [startsWith, isPrefix_ne _ _ _ _ hlt]
+    have hr : htmlRest ('|' :: s) = none := by
+      unfold htmlRest
+      have h1 : predefined ('|' :: s) = none := by unfold predefined; split <;> simp_all
+      have h2 : customTag ('|' :: s) = false := by
+        unfold customTag
+        have a : openTag ('|' :: s) = none := by unfold openTag; split <;> simp_all
+        have b : closingTag ('|' :: s) = none := by unfold closingTag; split <;> simp_all
+        simp [a, b]
+      simp [h1, h2]
+    have e1 : "<!--".toList = '<' :: ['!', '-', '-'] := by decide
+    have e2 : "<?".toList = '<' :: ['?'] := by decide
+    have e3 : "<!".toList = '<' :: ['!'] := by decide
+    simp only [hm, e1, e2, e3, hs, hr, Bool.false_eq_true, if_false]
+  · have h1 : '|' ≠ ' ' := by decide
+    have h2 : '|' ≠ '\t' := by decide
+    simp [blockCodeStart, replaceTab1, replaceFirst, startsWith, isPrefix_ne _ _ _ _ h1, isPrefix_ne _ _ _ _ h2]
+  · have hs : span (· == '#') ('|' :: s) = ([], '|' :: s) := by simp [span]
+    unfold Scan.heading
+    rw [hup]
+    simp only [hs]
+    simp
+  · have hl : lstripSp ('|' :: s) = '|' :: s := by simp [lstripSp]
+    have h2 : '|' ≠ '>' := by decide
+    simp [quoteStart, hl, startsWith, isPrefix_ne _ _ _ _ h2]
+  · unfold codeFenceStart Scan.codeFence
+    rw [hup]
+    simp
+  · unfold Scan.thematicBreak
+    rw [hup]
+    simp
+  · unfold listStart
+    rw [hup]
+    have : listMarker ('|' :: s) = none := by
+      have hd : span isDigit ('|' :: s) = ([], '|' :: s) := by
+        have : isDigit '|' = false := by decide +kernel
+        simp [span, this]
+      simp [listMarker, hd]
+    simp [this]
 /-- **a table alone in its buffer** under the default token list -/
 theorem tokenize_table (ti : Bool) (l0 l1 : Line) (body : List Line) (hf : HeadFacts l0.s)
     (h1 : l1.s.contains '|' = true) (hd : delimiterRow l1.s = true) (hb : ∀ x ∈ body, x.s.contains '|' = true)
@@ -507,13 +559,14 @@ def Leaf.write : Leaf → List Str
 def codeLineB (l : Str) : Bool := oneLine l && !l.contains '\t' && (isBlank l || startsWith [' ', ' ', ' ', ' '] l)
 
 /-- well-formedness of a leaf (decidable).
-    Table: header and body rows `rowOk`; no other block starts on the header line (`headFactsB`: it is not indented code, an
-    ATX heading, a quote, a fence, a thematic break, a list item or an HTML block - automatic when it begins with a pipe);
+    Table: header and body rows `rowOk`; when the header row does not begin with a pipe, no other block starts on it
+    (`headFactsB`: it is not indented code, an ATX heading, a quote, a fence, a thematic break, a list item or an HTML
+    block; with a leading pipe that is so: `pipe_headFacts`);
     the delimiter row `drowOk`; the header has as many cells as the delimiter row (GFM asks for that; the body rows may have
     fewer or more).
     Indented code: every line `codeLineB`; the first and the last line have a visible character. -/
 def Leaf.ok : Leaf → Bool
-  | .table h d rows => rowOk h && headFactsB h.line && drowOk d && decide (h.cells.length = d.cells.length) && rows.all rowOk
+  | .table h d rows => rowOk h && (h.lead || headFactsB h.line) && drowOk d && decide (h.cells.length = d.cells.length) && rows.all rowOk
   | .icode ls => ls.all codeLineB && (match ls.head? with | some l => !isBlank l | none => false)
       && (match ls.getLast? with | some l => !isBlank l | none => false)
 
@@ -542,9 +595,15 @@ structure TableFacts (h : Row) (d : DRow) (rows : List Row) : Prop where
   rows : ∀ r ∈ rows, RowFacts r
 
 theorem tableFacts_of (h : Row) (d : DRow) (rows : List Row) (hok : (Leaf.table h d rows).ok = true) : TableFacts h d rows := by
-  simp only [Leaf.ok, Bool.and_eq_true, List.all_eq_true] at hok
+  simp only [Leaf.ok, Bool.and_eq_true, List.all_eq_true, Bool.or_eq_true] at hok
   obtain ⟨⟨⟨⟨h0, h1⟩, h2⟩, _⟩, h4⟩ := hok
-  exact ⟨rowFacts_of h h0, headFacts_of _ h1, delimFacts_of d h2, fun r hr => rowFacts_of r (h4 r hr)⟩
+  refine ⟨rowFacts_of h h0, ?_, delimFacts_of d h2, fun r hr => rowFacts_of r (h4 r hr)⟩
+  rcases h1 with h1 | h1
+  · have : h.line = '|' :: (joinBar h.cells ++ (if h.trail then ['|'] else []) ++ ['\n']) := by
+      simp [Row.line, Row.body, h1]
+    rw [this]
+    exact pipe_headFacts _
+  · exact headFacts_of _ h1
 
 structure CodeFacts (ls : List Str) : Prop where
   ne : ls ≠ []
@@ -573,6 +632,68 @@ theorem codeFacts_of (ls : List Str) (hok : (Leaf.icode ls).ok = true) : CodeFac
       · exact Or.inr ⟨hb, ind4_of_prefix l h⟩
   · intro l hl; rw [hl] at h1; simpa using h1
   · intro l hl; rw [hl] at h2; simpa using h2
+
+/-- a code line with a visible character: what `BlockCode.read` keeps of it is a non-empty text without "\n", and "\n" -/
+theorem codePiece_vis (l : Str) (hl : LineOk l) (hnb : isBlank l = false) (t : Str) (ht : l = ind4 t) :
+    ∃ u, codePiece l = u ++ ['\n'] ∧ u ≠ [] ∧ '\n' ∉ u := by
+  obtain ⟨body, hb, hsep, _⟩ := hl
+  have hp : codePiece l = t := by
+    simp only [codePiece, hnb, Bool.false_eq_true, if_false]
+    rw [ht]; rfl
+  rw [ht] at hb
+  have hnl : ∀ u : Str, (∀ c ∈ u, isLineSep c = false) → '\n' ∉ u := by
+    intro u hu hm
+    have := hu _ hm
+    revert this; decide
+  match body, hb, hsep with
+  | [], hb, _ => simp [ind4] at hb
+  | [a], hb, _ => simp [ind4] at hb
+  | [a, b], hb, _ => simp [ind4] at hb
+  | [a, b, c], hb, _ => simp [ind4] at hb
+  | a :: b :: c :: d :: u, hb, hsep =>
+    simp only [ind4, List.cons_append, List.cons.injEq] at hb
+    obtain ⟨_, _, _, _, hb⟩ := hb
+    refine ⟨u, by rw [hp, hb], ?_, hnl u (fun x hx => hsep x (by simp [hx]))⟩
+    intro e
+    subst e
+    rw [ht, hb] at hnb
+    revert hnb; decide
+
+/-- **the content of a written indented code block** is every line minus its first four columns, joined: `strip('\n')`
+    removes nothing but the final "\n", which `BlockCode.__init__` puts back -/
+theorem codeContent_eq (ls : List Str) (hok : (Leaf.icode ls).ok = true) : codeContent ls = (ls.map codePiece).flatten := by
+  have hf := codeFacts_of ls hok
+  obtain ⟨cs, last, rfl⟩ : ∃ cs last, ls = cs ++ [last] := ⟨_, _, (List.dropLast_concat_getLast hf.ne).symm⟩
+  have hlast := hf.last last (by simp)
+  obtain ⟨hlo, hcl⟩ := hf.lines last (by simp)
+  obtain ⟨t, ht⟩ : ∃ t, last = ind4 t := by
+    rcases hcl with h | ⟨_, h⟩
+    · rw [h] at hlast; cases hlast
+    · exact h
+  obtain ⟨u, hu, hune, hunl⟩ := codePiece_vis last hlo hlast t ht
+  have e : ((cs ++ [last]).map codePiece).flatten = (cs.map codePiece).flatten ++ u ++ ['\n'] := by
+    simp [hu]
+  have hfirst : ∃ c r, (cs.map codePiece).flatten ++ u = c :: r ∧ c ≠ '\n' := by
+    cases cs with
+    | nil =>
+      cases u with
+      | nil => exact absurd rfl hune
+      | cons c r => exact ⟨c, r, rfl, fun e => hunl (by simp [e])⟩
+    | cons l0 cs' =>
+      have h0 := hf.first l0 rfl
+      obtain ⟨hlo0, hcl0⟩ := hf.lines l0 (by simp)
+      obtain ⟨t0, ht0⟩ : ∃ t, l0 = ind4 t := by
+        rcases hcl0 with h | ⟨_, h⟩
+        · rw [h] at h0; cases h0
+        · exact h
+      obtain ⟨u0, hu0, hu0ne, hu0nl⟩ := codePiece_vis l0 hlo0 h0 t0 ht0
+      cases u0 with
+      | nil => exact absurd rfl hu0ne
+      | cons c r => exact ⟨c, r ++ '\n' :: ((cs'.map codePiece).flatten ++ u), by simp [hu0], fun e => hu0nl (by simp [e])⟩
+  obtain ⟨c, r, hcr, hc⟩ := hfirst
+  unfold codeContent
+  rw [e]
+  exact MdRound.stripNl_lines _ _ c r hcr hc hune hunl
 
 theorem leaf_lineOk : ∀ (l : Leaf), l.ok = true → (∀ s ∈ l.write, LineOk s) ∧ l.write ≠ []
   | .table h d rows, hok => by
@@ -684,11 +805,17 @@ def rowsHtml (q : Quotes) (al : List (Option Nat)) : List Row → Str
   | [] => []
   | r :: rest => rowHtml q false al r ++ rowsHtml q al rest
 
+def tOpen : Str := ['<', 't', 'a', 'b', 'l', 'e', '>', '\n']
+def thOpen : Str := ['<', 't', 'h', 'e', 'a', 'd', '>', '\n']
+def thClose : Str := ['<', '/', 't', 'h', 'e', 'a', 'd', '>', '\n']
+def tbOpen : Str := ['<', 't', 'b', 'o', 'd', 'y', '>', '\n']
+def tbClose : Str := ['<', '/', 't', 'b', 'o', 'd', 'y', '>', '\n']
+def tClose : Str := ['<', '/', 't', 'a', 'b', 'l', 'e', '>']
+
 /-- `<table>`, `<thead>` with the header row, `<tbody>` with the body rows (present also when there is no body row),
-    `</table>` -/
+    `</table>`, each tag on a line of its own -/
 def tableHtml (q : Quotes) (h : Row) (d : DRow) (rows : List Row) : Str :=
-  "<table>\n<thead>\n".toList ++ rowHtml q true d.aligns h ++ "</thead>\n<tbody>\n".toList ++ rowsHtml q d.aligns rows
-    ++ "</tbody>\n</table>".toList
+  tOpen ++ (thOpen ++ rowHtml q true d.aligns h ++ thClose) ++ tbOpen ++ rowsHtml q d.aligns rows ++ tbClose ++ tClose
 
 def Leaf.html (q : Quotes) : Leaf → Str
   | .table h d rows => tableHtml q h d rows
@@ -742,22 +869,1576 @@ theorem flat_rows (q : Quotes) (s : Bool) (al : List (Option Nat)) : ∀ (rows :
 
 theorem flat_leaf (q : Quotes) (s : Bool) (n : Nat) : ∀ (l : Leaf), flat (renderBlock q s (l.block n)) = l.html q
   | .table h d rows => by
-    have e1 : flat [Ev.otag "table".toList [], nl] ++ flat [Ev.otag "thead".toList [], nl] = "<table>\n<thead>\n".toList := by decide +kernel
-    have e2 : flat [Ev.ctag "thead".toList, nl] ++ flat [Ev.otag "tbody".toList [], nl] = "</thead>\n<tbody>\n".toList := by decide +kernel
-    have e3 : flat [Ev.ctag "tbody".toList, nl] ++ flat [Ev.ctag "table".toList] = "</tbody>\n</table>".toList := by decide +kernel
-    simp only [Leaf.block, Leaf.html, tableHtml, renderBlock, flat_append, flat_row, flat_rows]
-    rw [← e1, ← e2, ← e3]
-    simp only [List.append_assoc]
+    have e1 : flat [Ev.otag "table".toList [], nl] = tOpen := by decide
+    have e2 : flat [Ev.otag "thead".toList [], nl] = thOpen := by decide
+    have e3 : flat [Ev.ctag "thead".toList, nl] = thClose := by decide
+    have e4 : flat [Ev.otag "tbody".toList [], nl] = tbOpen := by decide
+    have e5 : flat [Ev.ctag "tbody".toList, nl] = tbClose := by decide
+    have e6 : flat [Ev.ctag "table".toList] = tClose := by decide
+    simp only [Leaf.block, Leaf.html, tableHtml, renderBlock, flat_append, flat_row, flat_rows, e1, e2, e3, e4, e5, e6]
   | .icode ls => by
     simp only [Leaf.block, Leaf.html, renderBlock]
     exact flat_fence q [] _
 
 theorem leaf_html_ne (q : Quotes) : ∀ (l : Leaf), l.html q ≠ []
   | .table h d rows => by
-    simp only [Leaf.html, tableHtml]
-    have e : "<table>\n<thead>\n".toList = '<' :: "table>\n<thead>\n".toList := by decide
-    rw [e]
-    simp
+    simp [Leaf.html, tableHtml, tOpen]
   | .icode ls => by simp only [Leaf.html]; exact fenceHtml_ne _ _ _
+
+/-! ### The fragment with tables and indented code blocks -/
+
+open Mistletoe.ComposeL (leaderOf markerOk leaderOk_of_marker sepS stopLineB StopLine stopLine_of PostOk itemDoc_facts
+  item_lines_last item_lines_next readList_step_stop readList_step_next leader_chars lineOk_prepend spaces_chars
+  indentDoc_lineOk indentDoc_ne itemDocOk_ne after_after dcfg_noBlank dcfg_len)
+open Mistletoe.ComposeL (itemLooseB listHtml flat_list flat_li_open flat_li_close flat_li_empty flat_if_nl
+  flat_item2_nil flat_item2_cons listHtml_ne mkBlock_of_single2)
+open Mistletoe.InertInline (flat_prose)
+
+/-- A tree of block constructs: everything `ComposeC.T3` has (paragraph, ATX heading, thematic break, block quote, bullet /
+    ordered list, fenced code block, setext heading; children of quotes and list items are trees of this type again) and
+    `leaf l`: a table or an indented code block (`Leaf`). -/
+inductive T4 where
+  | para (lines : List Str)
+  | heading (level : Nat) (text : Str) (line : Str)
+  | hr (line : Str)
+  | quote (bare : Bool) (kids : List T4)
+  | list (ordered : Bool) (start : Nat) (marker : Char) (pad : Nat) (loose : Bool) (items : List (List T4))
+  | fence (ind : Nat) (delim info : Str) (body : List Str) (close : Str)
+  | setext (level : Nat) (lines : List Str) (ul : Str)
+  | leaf (l : Leaf)
+
+mutual
+/-- the source lines of one node -/
+def write4 : T4 → List Str
+  | .para ls => ls
+  | .heading _ _ line => [line]
+  | .hr line => [line]
+  | .quote bare kids => (writes4 kids).map (if bare then qbare else qsp)
+  | .list o n mk pad loose items => writeItems4 o mk pad loose n items
+  | .fence ind d info body close => (sp ind ++ d ++ info ++ ['\n']) :: (body ++ [close])
+  | .setext _ ls ul => ls ++ [ul]
+  | .leaf l => l.write
+/-- siblings, separated by exactly one "\n" line -/
+def writes4 : List T4 → List Str
+  | [] => []
+  | t :: rest =>
+    match rest with
+    | [] => write4 t
+    | _ :: _ => write4 t ++ ['\n'] :: writes4 rest
+/-- the items of a list: the lines of the item's blocks, the first behind the marker and `pad` spaces, the others behind
+    as many spaces as that is wide ("\n" lines stay "\n"); in a loose list one "\n" line between consecutive items -/
+def writeItems4 (o : Bool) (mk : Char) (pad : Nat) (loose : Bool) (n : Nat) : List (List T4) → List Str
+  | [] => []
+  | it :: rest =>
+    match rest with
+    | [] => indentDoc (leaderOf o n mk) pad (writes4 it)
+    | _ :: _ => indentDoc (leaderOf o n mk) pad (writes4 it) ++ (sepS loose ++ writeItems4 o mk pad loose (n + 1) rest)
+end
+
+mutual
+/-- a setext heading occurs in the node, at any depth -/
+def hasSx : T4 → Bool
+  | .setext .. => true
+  | .quote _ kids => hasSxs kids
+  | .list _ _ _ _ _ items => hasSxItems items
+  | _ => false
+def hasSxs : List T4 → Bool
+  | [] => false
+  | t :: rest => hasSx t || hasSxs rest
+def hasSxItems : List (List T4) → Bool
+  | [] => false
+  | it :: rest => hasSxs it || hasSxItems rest
+end
+
+def isList4 : T4 → Bool
+  | .list .. => true
+  | _ => false
+
+/-- lists and fenced code blocks: blocks that C05 does not count as closed by a blank line (an unclosed fence, the last item
+    of a list go on behind it); here the dispatcher is followed over them directly -/
+def isOpen4 : T4 → Bool
+  | .list .. => true
+  | .fence .. => true
+  | .leaf l => l.isCode
+  | _ => false
+
+def isCode4 : T4 → Bool
+  | .leaf l => l.isCode
+  | _ => false
+
+/-- what is asked of two consecutive siblings: behind a list no list, and a first line that is a `stopLineB`; behind an
+    indented code block a first line that is not indented code again (it would go on the block) -/
+def sepOk4 (t t' : T4) : Bool :=
+  (!isList4 t || (!isList4 t' && stopLineB ((write4 t').headD [])))
+    && (!isCode4 t || (!isBlank ((write4 t').headD []) && !blockCodeStart ((write4 t').headD [])))
+
+open Mistletoe.Document (joinNl) in
+mutual
+/-- well-formedness (decidable).  Paragraph, heading, thematic break, quote: as `Compose.T.ok`.  List:
+    * 1 ≤ pad ≤ 4; at least one item; every item has at least one block, all well-formed;
+    * every marker is a bullet `-`, `+`, `*`, or a number of at most nine digits (< 10⁹) and `.` or `)` (`markerOk`);
+    * the lines of an item (`itemDocOk`): the first begins with a character that is not whitespace; every other line is
+      "\n" or has a non-whitespace character after its spaces (`ContLine`); marker + first line is not a thematic break
+      (`* * *`, `- - -`);
+    * `loose` is the looseness the specification assigns: a loose list has two or more items or an item with two or
+      more blocks; the items of a tight list have one block each.
+    Quote: in addition no setext heading inside, at any depth (`hasSxs`).
+    Fenced code block: `fenceOkB`.  Setext heading: the text lines as for a paragraph; the underline `ulOk`.
+    Siblings (`T4.oks`): a list is not followed by a list, and the block that follows a list begins with a
+    non-whitespace character and carries no list marker (`sepOk4`). -/
+def T4.ok : T4 → Bool
+  | .para ls => !ls.isEmpty && ls.all (fun l => inertLine l && proseLine l && oneLine l && !l.contains '\t')
+      && inertBody (joinNl (ls.map strip))
+  | .heading lv t line => !t.isEmpty && inertText t && headLine lv t line && oneLine line && !line.contains '\t'
+  | .hr line => hrLine line && oneLine line && !line.contains '\t'
+  | .quote bare kids => !kids.isEmpty && T4.oks kids && (!bare || (writes4 kids).all (fun s => s.head? != some ' '))
+      && !hasSxs kids
+  | .list o n mk pad loose items =>
+    decide (1 ≤ pad) && decide (pad ≤ 4) && !items.isEmpty && T4.okItems o mk pad n items
+      && (if loose then decide (2 ≤ items.length) || items.any (fun it => decide (1 < it.length))
+          else items.all (fun it => it.length == 1))
+  | .fence ind d info body close => fenceOkB ind d info body close
+  | .setext lv ls ul => (Compose.T.para ls).ok && ulOk lv ul
+  | .leaf l => l.ok
+def T4.oks : List T4 → Bool
+  | [] => true
+  | t :: rest => t.ok && T4.oks rest && (match rest with | [] => true | t' :: _ => sepOk4 t t')
+def T4.okItems (o : Bool) (mk : Char) (pad : Nat) (n : Nat) : List (List T4) → Bool
+  | [] => true
+  | it :: rest => !it.isEmpty && T4.oks it && markerOk o n mk && itemDocOk (writes4 it)
+      && !Scan.thematicBreak (leaderOf o n mk ++ List.replicate pad ' ' ++ (writes4 it).headD [])
+      && T4.okItems o mk pad (n + 1) rest
+end
+
+mutual
+/-- the parse-buffer entry expected for a node whose first line is line `n` -/
+def entry4 (n : Nat) : T4 → Entry
+  | .para ls => .paragraph ls n n
+  | .heading lv t line => .heading lv t (closingOf line) n n
+  | .hr line => .thematicBreak line n n
+  | .quote _ kids => .quote (entries4 n kids) (decide (1 < kids.length)) n n
+  | .list o s mk pad loose items => .list (items4 o mk pad loose s n items) n n
+  | .fence ind d info body _ => .codeFence (body.map (dedent ind)) ind d info (fenceLang info) n n
+  | .setext _ ls ul => .setext (ls ++ [ul]) n n
+  | .leaf l => l.entry n
+def entries4 (n : Nat) : List T4 → List Entry
+  | [] => []
+  | t :: rest => entry4 n t :: entries4 (n + (write4 t).length + 1) rest
+/-- the items: content = the entries of the item's blocks; loose = a "\n" line follows inside the list, or the item has
+    more than one block; indentation 0; content offset = marker width + pad; the marker; the line of the marker -/
+def items4 (o : Bool) (mk : Char) (pad : Nat) (loose : Bool) (s : Nat) (n : Nat) : List (List T4) → List Item
+  | [] => []
+  | it :: rest =>
+    .mk (entries4 n it) ((loose && !rest.isEmpty) || decide (1 < it.length)) 0 ((leaderOf o s mk).length + pad) (leaderOf o s mk) n n
+      :: items4 o mk pad loose (s + 1) (n + (writes4 it).length + (sepS loose).length) rest
+end
+
+mutual
+/-- a quote occurs among the blocks (at any depth of list nesting): `Quote.read` switches `Paragraph.parse_setext` back on -/
+def touch4 : T4 → Bool
+  | .quote _ _ => true
+  | .list _ _ _ _ _ items => touchItems4 items
+  | _ => false
+def touches4 : List T4 → Bool
+  | [] => false
+  | t :: rest => touch4 t || touches4 rest
+def touchItems4 : List (List T4) → Bool
+  | [] => false
+  | it :: rest => touches4 it || touchItems4 rest
+end
+
+mutual
+/-- gas that suffices -/
+def need4 : T4 → Nat
+  | .para _ => 14
+  | .heading _ _ _ => 14
+  | .hr _ => 14
+  | .quote _ kids => needs4 kids + 6
+  | .list _ _ _ _ _ items => needItems4 items + 12
+  | .fence .. => 12
+  | .setext .. => 14
+  | .leaf _ => 12
+def needs4 : List T4 → Nat
+  | [] => 0
+  | t :: rest => need4 t + needs4 rest + 14
+def needItems4 : List (List T4) → Nat
+  | [] => 0
+  | it :: rest => needs4 it + needItems4 rest + 1
+end
+/-! ### What well-formedness gives -/
+
+theorem oks4_cons (t : T4) (rest : List T4) (h : T4.oks (t :: rest) = true) :
+    t.ok = true ∧ T4.oks rest = true ∧ ∀ t' r, rest = t' :: r → sepOk4 t t' = true := by
+  simp only [T4.oks, Bool.and_eq_true] at h
+  refine ⟨h.1.1, h.1.2, ?_⟩
+  rintro t' r rfl
+  exact h.2
+
+theorem okItems_cons (o : Bool) (mk : Char) (pad n : Nat) (it : List T4) (rest : List (List T4))
+    (h : T4.okItems o mk pad n (it :: rest) = true) :
+    it ≠ [] ∧ T4.oks it = true ∧ leaderOk o (leaderOf o n mk) = true ∧ itemDocOk (writes4 it) = true ∧
+    Scan.thematicBreak (leaderOf o n mk ++ List.replicate pad ' ' ++ (writes4 it).headD []) = false ∧
+    T4.okItems o mk pad (n + 1) rest = true := by
+  simp only [T4.okItems, Bool.and_eq_true, Bool.not_eq_eq_eq_not, Bool.not_true, List.isEmpty_eq_false_iff] at h
+  obtain ⟨⟨⟨⟨⟨a, b⟩, c⟩, d⟩, e⟩, f⟩ := h
+  exact ⟨a, b, leaderOk_of_marker o n mk c, d, e, f⟩
+
+/-- the facts `T4.ok` packs for a list -/
+structure ListOk (o : Bool) (n : Nat) (mk : Char) (pad : Nat) (loose : Bool) (items : List (List T4)) : Prop where
+  p1 : 1 ≤ pad
+  p4 : pad ≤ 4
+  ne : items ≠ []
+  its : T4.okItems o mk pad n items = true
+  looseC : (if loose then decide (2 ≤ items.length) || items.any (fun it => decide (1 < it.length))
+          else items.all (fun it => it.length == 1)) = true
+  start : o = true → parseNat (natDigits n) = n
+
+theorem listOk_of (o : Bool) (n : Nat) (mk : Char) (pad : Nat) (loose : Bool) (items : List (List T4))
+    (h : (T4.list o n mk pad loose items).ok = true) : ListOk o n mk pad loose items := by
+  simp only [T4.ok, Bool.and_eq_true, decide_eq_true_eq, Bool.not_eq_eq_eq_not, Bool.not_true, List.isEmpty_eq_false_iff] at h
+  obtain ⟨⟨⟨⟨a, b⟩, c⟩, d⟩, e⟩ := h
+  exact ⟨a, b, c, d, e, fun _ => parseNat_natDigits n⟩
+theorem writeItems4_ne (o : Bool) (mk : Char) (pad : Nat) (loose : Bool) (n : Nat) (it : List T4) (rest : List (List T4))
+    (h : itemDocOk (writes4 it) = true) : writeItems4 o mk pad loose n (it :: rest) ≠ [] := by
+  have := indentDoc_ne (leaderOf o n mk) pad _ (itemDocOk_ne _ h)
+  cases rest with
+  | nil => simpa [writeItems4] using this
+  | cons a b => simp [writeItems4, this]
+
+theorem quoteOk4_of (bare : Bool) (kids : List T4) (h : (T4.quote bare kids).ok = true) :
+    kids ≠ [] ∧ T4.oks kids = true ∧ (bare = true → ∀ s ∈ writes4 kids, s.head? ≠ some ' ') ∧ hasSxs kids = false := by
+  simp only [T4.ok, Bool.and_eq_true, Bool.not_eq_eq_eq_not, Bool.not_true, List.isEmpty_eq_false_iff,
+    Bool.or_eq_true, List.all_eq_true, bne_iff_ne, ne_eq] at h
+  refine ⟨h.1.1.1, h.1.1.2, ?_, h.2⟩
+  intro hb
+  rcases h.1.2 with h2 | h2
+  · rw [hb] at h2; cases h2
+  · exact h2
+
+theorem writeItems4_single (o : Bool) (mk : Char) (pad : Nat) (loose : Bool) (n : Nat) (it : List T4) :
+    writeItems4 o mk pad loose n [it] = indentDoc (leaderOf o n mk) pad (writes4 it) := by simp [writeItems4]
+
+theorem writeItems4_cons2 (o : Bool) (mk : Char) (pad : Nat) (loose : Bool) (n : Nat) (it it' : List T4) (r : List (List T4)) :
+    writeItems4 o mk pad loose n (it :: it' :: r) =
+      indentDoc (leaderOf o n mk) pad (writes4 it) ++ (sepS loose ++ writeItems4 o mk pad loose (n + 1) (it' :: r)) := by
+  simp [writeItems4]
+
+theorem writes4_cons2 (t t' : T4) (r : List T4) : writes4 (t :: t' :: r) = write4 t ++ ['\n'] :: writes4 (t' :: r) := by
+  simp [writes4]
+
+theorem writes4_single (t : T4) : writes4 [t] = write4 t := by simp [writes4]
+
+theorem setextOk_of (lv : Nat) (ls : List Str) (ul : Str) (h : (T4.setext lv ls ul).ok = true) : ParaOk ls ∧ UlOk lv ul := by
+  simp only [T4.ok, Bool.and_eq_true] at h
+  exact ⟨paraOk_of ls h.1, ulOk_of lv ul h.2⟩
+
+mutual
+theorem write4_lineOk : ∀ (t : T4), t.ok = true → (∀ s ∈ write4 t, LineOk s) ∧ write4 t ≠ []
+  | .para ls, h => by
+    have := paraOk_of ls (by simpa [T4.ok, T.ok] using h)
+    exact ⟨this.line, this.ne⟩
+  | .heading lv t line, h => by
+    have := headOk_of lv t line (by simpa [T4.ok, T.ok] using h)
+    simp only [write4, List.mem_singleton]
+    exact ⟨fun s hs => by rw [hs]; exact this.line, by simp⟩
+  | .hr line, h => by
+    have := hrOk_of line (by simpa [T4.ok, T.ok] using h)
+    simp only [write4, List.mem_singleton]
+    exact ⟨fun s hs => by rw [hs]; exact this.2, by simp⟩
+  | .quote bare kids, h => by
+    obtain ⟨hne, hk, _⟩ := quoteOk4_of bare kids h
+    have ih := writes4_lineOk kids hk
+    simp only [write4, List.mem_map]
+    constructor
+    · rintro s ⟨s0, hs0, rfl⟩
+      cases bare
+      · exact lineOk_qsp (ih.1 s0 hs0)
+      · exact lineOk_qbare (ih.1 s0 hs0)
+    · simpa using ih.2 hne
+  | .list o n mk pad loose items, h => by
+    have hl := listOk_of o n mk pad loose items h
+    refine ⟨writeItems4_lineOk o mk pad loose n items hl.its, ?_⟩
+    simp only [write4]
+    cases items with
+    | nil => exact absurd rfl hl.ne
+    | cons it rest => exact writeItems4_ne o mk pad loose n it rest (okItems_cons o mk pad n it rest hl.its).2.2.2.1
+  | .fence ind d info body close, h => by
+    have hf := fenceFacts_of ind d info body close (by simpa [T4.ok] using h)
+    simp only [write4]
+    refine ⟨?_, by simp⟩
+    intro s hs
+    rcases List.mem_cons.mp hs with rfl | hs
+    · exact hf.openOk
+    · rcases List.mem_append.mp hs with hs | hs
+      · exact (hf.body s hs).1
+      · simp only [List.mem_singleton] at hs; rw [hs]; exact hf.closeOk
+  | .setext lv ls ul, h => by
+    obtain ⟨hp, hu⟩ := setextOk_of lv ls ul h
+    simp only [write4]
+    refine ⟨?_, by simp⟩
+    intro s hs
+    rcases List.mem_append.mp hs with hs | hs
+    · exact hp.line s hs
+    · simp only [List.mem_singleton] at hs; rw [hs]; exact hu.line
+  | .leaf l, h => leaf_lineOk l (by simpa [T4.ok] using h)
+theorem writes4_lineOk : ∀ (ts : List T4), T4.oks ts = true → (∀ s ∈ writes4 ts, LineOk s) ∧ (ts ≠ [] → writes4 ts ≠ [])
+  | [], _ => by simp [writes4]
+  | t :: rest, h => by
+    obtain ⟨h1, h2, _⟩ := oks4_cons t rest h
+    have iht := write4_lineOk t h1
+    have ihr := writes4_lineOk rest h2
+    cases rest with
+    | nil => simpa [writes4] using iht
+    | cons t' r =>
+      rw [writes4_cons2]
+      constructor
+      · intro s hs
+        rcases List.mem_append.mp hs with hs | hs
+        · exact iht.1 s hs
+        · rcases List.mem_cons.mp hs with rfl | hs
+          · exact lineOk_nl
+          · exact ihr.1 s hs
+      · intro _; simp
+theorem writeItems4_lineOk (o : Bool) (mk : Char) (pad : Nat) (loose : Bool) : ∀ (n : Nat) (items : List (List T4)),
+    T4.okItems o mk pad n items = true → ∀ s ∈ writeItems4 o mk pad loose n items, LineOk s
+  | _, [], _ => by simp [writeItems4]
+  | n, it :: rest, h => by
+    obtain ⟨_, hit, hlead, _, _, hrest⟩ := okItems_cons o mk pad n it rest h
+    have h1 := indentDoc_lineOk o _ hlead pad _ (writes4_lineOk it hit).1
+    have h2 := writeItems4_lineOk o mk pad loose (n + 1) rest hrest
+    cases rest with
+    | nil => rw [writeItems4_single]; exact h1
+    | cons it' r =>
+      rw [writeItems4_cons2]
+      intro s hs
+      rcases List.mem_append.mp hs with hs | hs
+      · exact h1 s hs
+      · rcases List.mem_append.mp hs with hs | hs
+        · cases loose with
+          | false => simp [sepS] at hs
+          | true => simp only [sepS, if_true, List.mem_singleton] at hs; rw [hs]; exact lineOk_nl
+        · exact h2 s hs
+end
+
+
+/-! ### The claims -/
+
+theorem sxOk_head {t : T4} {rest : List T4} {st : St} (h : SxOk (hasSxs (t :: rest)) st) : SxOk (hasSx t) st := by
+  intro hb; exact h (by simp [hasSxs, hb])
+theorem sxOk_tail {t : T4} {rest : List T4} {st : St} (h : SxOk (hasSxs (t :: rest)) st) : SxOk (hasSxs rest) st := by
+  intro hb; exact h (by simp [hasSxs, hb])
+theorem sxOk_ihead {it : List T4} {rest : List (List T4)} {st : St} (h : SxOk (hasSxItems (it :: rest)) st) : SxOk (hasSxs it) st := by
+  intro hb; exact h (by simp [hasSxItems, hb])
+theorem sxOk_itail {it : List T4} {rest : List (List T4)} {st : St} (h : SxOk (hasSxItems (it :: rest)) st) :
+    SxOk (hasSxItems rest) st := by
+  intro hb; exact h (by simp [hasSxItems, hb])
+
+/-- one node that is not a list, alone in its buffer -/
+def NodeClaim (ti : Bool) (t : T4) : Prop := ∀ (k : Nat) (st : St) (gas : Nat), need4 t ≤ gas → SxOk (hasSx t) st →
+  tokenizeBlock (dcfg ti) gas (numbered k (write4 t)) (k + 1) st =
+    .ok ({ entries := [entry4 (k + 1) t], loose := false }, after st (touch4 t))
+
+/-- siblings in a buffer of their own, with or without a final "\n" line (the buffer of an item that is not the last
+    one of a loose list ends in one) -/
+def NodesClaim (ti : Bool) (ts : List T4) : Prop := ∀ (tail : Bool) (k : Nat) (st : St) (gas : Nat), needs4 ts ≤ gas →
+  SxOk (hasSxs ts) st →
+  tokenizeBlock (dcfg ti) gas (numbered k (writes4 ts ++ sepS tail)) (k + 1) st =
+    .ok ({ entries := entries4 (k + 1) ts, loose := decide (1 < ts.length) || tail }, after st (touches4 ts))
+
+def firstLine4 (items : List (List T4)) : Str :=
+  match items with
+  | it :: _ => (writes4 it).headD []
+  | [] => []
+
+/-- `List.read` entered on the first item (no leader, no marker yet), or re-entered on a later item (the first item's
+    marker as leader, the marker of this item handed on by the previous `ListItem.read`) -/
+def LdNm (o : Bool) (mk : Char) (pad n : Nat) (items : List (List T4)) (ld : Option Str) (nm : Option (Nat × Nat × Str × Str)) : Prop :=
+  (ld = none ∧ nm = none) ∨
+  (∃ n0, ld = some (leaderOf o n0 mk) ∧ leaderOk o (leaderOf o n0 mk) = true ∧
+    nm = some (0, (leaderOf o n mk).length + pad, leaderOf o n mk, firstLine4 items))
+
+/-- `List.read` over the written items, anywhere in a buffer: `pre` before them, `post` behind them -/
+def ItemsClaim (ti : Bool) (o : Bool) (mk : Char) (pad : Nat) (loose : Bool) (n : Nat) (items : List (List T4)) : Prop :=
+  ∀ (pre post : List Line) (start k : Nat) (st : St) (gas : Nat) (acc : List Item) ld nm,
+    start + pre.length = k + 1 → needItems4 items ≤ gas → PostOk post → LdNm o mk pad n items ld nm →
+    SxOk (hasSxItems items) st →
+    readList (dcfg ti) gas ⟨pre ++ numbered k (writeItems4 o mk pad loose n items) ++ post, pre.length, start⟩ st ld nm acc =
+      .ok (acc.reverse ++ items4 o mk pad loose n (k + 1) items,
+           ⟨pre ++ numbered k (writeItems4 o mk pad loose n items) ++ post,
+            pre.length + (writeItems4 o mk pad loose n items).length, start⟩,
+           after st (touchItems4 items))
+mutual
+theorem entry4_shift (j : Nat) : ∀ (n : Nat) (t : T4), shiftEntry j (entry4 n t) = entry4 (n + j) t
+  | n, .para ls => by simp [entry4, shiftEntry]
+  | n, .heading lv t line => by simp [entry4, shiftEntry]
+  | n, .hr line => by simp [entry4, shiftEntry]
+  | n, .quote _ kids => by simp [entry4, shiftEntry, entries4_shift j n kids]
+  | n, .list o s mk pad loose items => by simp [entry4, shiftEntry, items4_shift j o mk pad loose s n items]
+  | n, .fence ind d info body close => by simp [entry4, shiftEntry]
+  | n, .setext lv ls ul => by simp [entry4, shiftEntry]
+  | n, .leaf l => by simp [entry4, leaf_entry_shift]
+theorem entries4_shift (j : Nat) : ∀ (n : Nat) (ts : List T4), shiftEntries j (entries4 n ts) = entries4 (n + j) ts
+  | n, [] => by simp [entries4, shiftEntries]
+  | n, t :: rest => by
+    simp only [entries4, shiftEntries, entry4_shift j n t, entries4_shift j _ rest]
+    congr 2; omega
+theorem items4_shift (j : Nat) (o : Bool) (mk : Char) (pad : Nat) (loose : Bool) : ∀ (s n : Nat) (items : List (List T4)),
+    shiftItems j (items4 o mk pad loose s n items) = items4 o mk pad loose s (n + j) items
+  | s, n, [] => by simp [items4, shiftItems]
+  | s, n, it :: rest => by
+    simp only [items4, shiftItems, shiftItem, entries4_shift j n it, items4_shift j o mk pad loose _ _ rest]
+    congr 2; omega
+end
+
+theorem entries4_length (n : Nat) : ∀ (ts : List T4), (entries4 n ts).length = ts.length := by
+  intro ts
+  induction ts generalizing n with
+  | nil => rfl
+  | cons t rest ih => simp [entries4, ih]
+
+theorem closed_entry4 (n : Nat) : ∀ (t : T4), isOpen4 t = false → closedE (entry4 n t) = true
+  | .para _, _ => rfl
+  | .heading _ _ _, _ => rfl
+  | .hr _, _ => rfl
+  | .quote _ _, _ => rfl
+  | .list .., h => by simp [isOpen4] at h
+  | .fence .., h => by simp [isOpen4] at h
+  | .setext .., _ => rfl
+  | .leaf (.table ..), _ => rfl
+  | .leaf (.icode _), h => by simp [isOpen4, Leaf.isCode] at h
+
+theorem writeItems4_head (o : Bool) (mk : Char) (pad : Nat) (loose : Bool) (n : Nat) (it : List T4) (rest : List (List T4))
+    (c0 : Str) (cs : List Str) (h : writes4 it = c0 :: cs) :
+    ∃ tl, writeItems4 o mk pad loose n (it :: rest) = (leaderOf o n mk ++ List.replicate pad ' ' ++ c0) :: tl := by
+  cases rest with
+  | nil => rw [writeItems4_single, h]; exact ⟨_, rfl⟩
+  | cons a b => rw [writeItems4_cons2, h]; exact ⟨_, rfl⟩
+
+theorem otherMarker_of_ldnm (o : Bool) (mk : Char) (pad n : Nat) (items : List (List T4)) (ld nm)
+    (h : LdNm o mk pad n items ld nm) (hok : leaderOk o (leaderOf o n mk) = true) : otherMarkerType ld nm = false := by
+  rcases h with ⟨rfl, _⟩ | ⟨n0, rfl, h0, rfl⟩
+  · exact otherMarkerType_none_left _
+  · simp only [otherMarkerType, Bool.not_eq_eq_eq_not, Bool.not_false]
+    cases o with
+    | false => simp [leaderOf, sameMarkerType]
+    | true =>
+      obtain ⟨d, e, hd, _, h1, _, hdig⟩ := leaderOk_ordered _ h0
+      obtain ⟨d', e', hd', _, h1', _, hdig'⟩ := leaderOk_ordered _ hok
+      simp only [leaderOf, if_true] at hd hd' ⊢
+      have e1 : natDigits n0 = d ∧ mk = e := by
+        have := List.append_inj' hd (by simp)
+        exact ⟨this.1, by simpa using this.2⟩
+      have e2 : natDigits n = d' ∧ mk = e' := by
+        have := List.append_inj' hd' (by simp)
+        exact ⟨this.1, by simpa using this.2⟩
+      have hl : ((natDigits n0 ++ [mk]).length == 1) = false := by
+        rw [e1.1]; simp only [List.length_append, List.length_singleton, beq_eq_false_iff_ne, ne_eq]; omega
+      simp only [sameMarkerType, hl, Bool.false_eq_true, if_false, List.dropLast_concat, List.getLast?_concat,
+        Bool.and_eq_true, List.all_eq_true, Bool.not_eq_eq_eq_not, Bool.not_true, List.isEmpty_eq_false_iff, beq_self_eq_true, and_true]
+      rw [e1.1, e2.1]
+      refine ⟨⟨⟨?_, ?_⟩, ?_⟩, ?_⟩
+      · intro x hx; exact (asciiDigit_facts x (hdig x hx)).1
+      · intro x hx; exact (asciiDigit_facts x (hdig' x hx)).1
+      · intro e; subst e; simp at h1
+      · intro e; subst e; simp at h1'
+
+
+/-! ### `List.read` over the written items -/
+
+theorem needItems4_cons (it : List T4) (rest : List (List T4)) : needItems4 (it :: rest) = needs4 it + needItems4 rest + 1 := by
+  simp [needItems4]
+
+/-- the last item -/
+theorem items_last (ti : Bool) (o : Bool) (mk : Char) (pad : Nat) (loose : Bool) (n : Nat) (it : List T4)
+    (h1 : 1 ≤ pad) (h4 : pad ≤ 4) (hok : T4.okItems o mk pad n [it] = true) (hN : NodesClaim ti it) :
+    ItemsClaim ti o mk pad loose n [it] := by
+  intro pre post start k st gas acc ld nm hk hg hpost hln hsx
+  obtain ⟨_, _, hlead, hdoc, _, _⟩ := okItems_cons o mk pad n it [] hok
+  have hm := listLeader_of o _ hlead
+  obtain ⟨c0, cs, hw⟩ : ∃ c0 cs, writes4 it = c0 :: cs := by
+    cases hw : writes4 it with
+    | nil => rw [hw] at hdoc; simp [itemDocOk] at hdoc
+    | cons c0 cs => exact ⟨c0, cs, rfl⟩
+  rw [hw] at hdoc
+  obtain ⟨g, rfl⟩ : ∃ g, gas = g + 1 := ⟨gas - 1, by rw [needItems4_cons] at hg; omega⟩
+  have hg' : needs4 it ≤ g := by rw [needItems4_cons] at hg; omega
+  have hprev : nm = none ∨ nm = some (0, (leaderOf o n mk).length + pad, leaderOf o n mk, c0) := by
+    rcases hln with ⟨_, h⟩ | ⟨_, _, _, h⟩
+    · exact Or.inl h
+    · right; rw [h]; simp [firstLine4, hw]
+  have hil := item_lines_last (dcfg ti) _ hm pad h1 h4 c0 cs hdoc pre post start k hk hpost nm hprev
+  have htok := hN false k st g hg' (sxOk_ihead hsx)
+  simp only [sepS, Bool.false_eq_true, if_false, List.append_nil, hw] at htok
+  have hom := otherMarker_of_ldnm o mk pad n [it] ld nm hln hlead
+  rw [writeItems4_single, hw]
+  rw [readList_step_stop (dcfg ti) g _ st ld nm acc _ _ _ _ _ _ _ _ _ _ hom hil htok]
+  simp only [items4, entries4_length, List.isEmpty_nil, Bool.not_true, Bool.and_false, Bool.false_or, Bool.or_false,
+    touchItems4, gt_iff_lt, Bool.and_self, List.length_cons, indentDoc, List.length_map]
+
+/-- an item and the items behind it -/
+theorem items_cons (ti : Bool) (o : Bool) (mk : Char) (pad : Nat) (loose : Bool) (n : Nat) (it it' : List T4) (r : List (List T4))
+    (h1 : 1 ≤ pad) (h4 : pad ≤ 4) (hok : T4.okItems o mk pad n (it :: it' :: r) = true) (hN : NodesClaim ti it)
+    (hR : ItemsClaim ti o mk pad loose (n + 1) (it' :: r)) :
+    ItemsClaim ti o mk pad loose n (it :: it' :: r) := by
+  intro pre post start k st gas acc ld nm hk hg hpost hln hsx
+  obtain ⟨_, _, hlead, hdoc, _, hok'⟩ := okItems_cons o mk pad n it (it' :: r) hok
+  obtain ⟨_, _, hlead', hdoc', htb', _⟩ := okItems_cons o mk pad (n + 1) it' r hok'
+  have hm := listLeader_of o _ hlead
+  have hm' := listLeader_of o _ hlead'
+  obtain ⟨c0, cs, hw⟩ : ∃ c0 cs, writes4 it = c0 :: cs := by
+    cases hw : writes4 it with
+    | nil => rw [hw] at hdoc; simp [itemDocOk] at hdoc
+    | cons c0 cs => exact ⟨c0, cs, rfl⟩
+  obtain ⟨c0', cs', hw'⟩ : ∃ c0 cs, writes4 it' = c0 :: cs := by
+    cases hw : writes4 it' with
+    | nil => rw [hw] at hdoc'; simp [itemDocOk] at hdoc'
+    | cons c0 cs => exact ⟨c0, cs, rfl⟩
+  rw [hw] at hdoc
+  rw [hw'] at hdoc' htb'
+  simp only [List.headD_cons] at htb'
+  obtain ⟨⟨ch', r0', rfl, hch'⟩, _, _⟩ := itemDoc_facts c0' cs' hdoc'
+  obtain ⟨g, rfl⟩ : ∃ g, gas = g + 1 := ⟨gas - 1, by rw [needItems4_cons] at hg; omega⟩
+  have hg1 : needs4 it ≤ g := by rw [needItems4_cons] at hg; omega
+  have hg2 : needItems4 (it' :: r) ≤ g := by rw [needItems4_cons] at hg; omega
+  have hprev : nm = none ∨ nm = some (0, (leaderOf o n mk).length + pad, leaderOf o n mk, c0) := by
+    rcases hln with ⟨_, h⟩ | ⟨_, _, _, h⟩
+    · exact Or.inl h
+    · right; rw [h]; simp [firstLine4, hw]
+  -- the lines of the list, split behind the first item
+  obtain ⟨tl, htl⟩ := writeItems4_head o mk pad loose (n + 1) it' r (ch' :: r0') cs' hw'
+  let k2 := k + (cs.length + 1 + (sepS loose).length)
+  have hlen : (indentDoc (leaderOf o n mk) pad (c0 :: cs) ++ sepS loose).length = cs.length + 1 + (sepS loose).length := by
+    simp [indentDoc]; omega
+  have hsplit : numbered k (writeItems4 o mk pad loose n (it :: it' :: r)) =
+      numbered k (indentDoc (leaderOf o n mk) pad (c0 :: cs) ++ sepS loose) ++
+        numbered k2 (writeItems4 o mk pad loose (n + 1) (it' :: r)) := by
+    rw [writeItems4_cons2, hw, ← List.append_assoc, numbered_append, hlen]
+  -- the marker line of the next item
+  obtain ⟨c, m'', hmc, hc⟩ := hm'.lead
+  let l' : Line := { s := leaderOf o (n + 1) mk ++ List.replicate pad ' ' ++ ch' :: r0', origin := k2 + 1 }
+  have hl's : l'.s = c :: (m'' ++ List.replicate pad ' ' ++ ch' :: r0') := by
+    show leaderOf o (n + 1) mk ++ List.replicate pad ' ' ++ ch' :: r0' = _
+    rw [hmc]; simp
+  have hnext : numbered k2 (writeItems4 o mk pad loose (n + 1) (it' :: r)) = l' :: numbered (k2 + 1) tl := by
+    rw [htl, numbered_cons]
+  have hnc : parseContinuation l'.s ((leaderOf o n mk).length + pad) = none := by
+    rw [hl's]
+    exact parseContinuation_lead c _ _ (by omega) hc.n_sp hc.n_tab (by rintro rfl; exact absurd hc.nsp (by decide))
+  have hpm' : parseMarker l'.s = some (0, (leaderOf o (n + 1) mk).length + pad, leaderOf o (n + 1) mk, ch' :: r0') :=
+    parseMarker_first _ hm' pad h1 h4 ch' r0' hch'
+  have hne : NoEarly l'.s := by
+    rw [hl's]
+    refine lead_noEarly hc _ ?_
+    rw [← hl's]
+    exact htb'
+  have hil := item_lines_next (dcfg ti) _ hm pad h1 h4 c0 cs hdoc loose pre (numbered (k2 + 1) tl ++ post) l' start k hk _ hnc hpm' hne nm hprev
+  have htok := hN loose k st g hg1 (sxOk_ihead hsx)
+  rw [hw] at htok
+  have hom := otherMarker_of_ldnm o mk pad n (it :: it' :: r) ld nm hln hlead
+  have hbuf : pre ++ numbered k (writeItems4 o mk pad loose n (it :: it' :: r)) ++ post =
+      pre ++ numbered k (indentDoc (leaderOf o n mk) pad (c0 :: cs) ++ sepS loose) ++ l' :: (numbered (k2 + 1) tl ++ post) := by
+    rw [hsplit, hnext]; simp
+  rw [hbuf, readList_step_next (dcfg ti) g _ st ld nm acc _ _ _ _ _ _ _ _ _ _ _ hom hil htok]
+  -- the items behind
+  have hbuf2 : pre ++ numbered k (indentDoc (leaderOf o n mk) pad (c0 :: cs) ++ sepS loose) ++ l' :: (numbered (k2 + 1) tl ++ post) =
+      (pre ++ numbered k (indentDoc (leaderOf o n mk) pad (c0 :: cs) ++ sepS loose)) ++
+        numbered k2 (writeItems4 o mk pad loose (n + 1) (it' :: r)) ++ post := by
+    rw [hnext]; simp
+  have hpos : pre.length + (cs.length + 1 + (sepS loose).length) =
+      (pre ++ numbered k (indentDoc (leaderOf o n mk) pad (c0 :: cs) ++ sepS loose)).length := by
+    rw [List.length_append, numbered_length, hlen]
+  have hln' : LdNm o mk pad (n + 1) (it' :: r) (some (ld.getD (leaderOf o n mk)))
+      (some (0, (leaderOf o (n + 1) mk).length + pad, leaderOf o (n + 1) mk, ch' :: r0')) := by
+    right
+    rcases hln with ⟨rfl, _⟩ | ⟨n0, rfl, h0, _⟩
+    · exact ⟨n, rfl, hlead, by simp [firstLine4, hw']⟩
+    · exact ⟨n0, rfl, h0, by simp [firstLine4, hw']⟩
+  rw [hbuf2, hpos]
+  rw [hR _ post start k2 _ g _ _ _ (by rw [← hpos]; omega) hg2 hpost hln' (sxOk_after (sxOk_itail hsx) _)]
+  simp only [items4, hw, List.length_cons, touchItems4, after_after, List.isEmpty_cons, Bool.not_false, Bool.and_true,
+    List.reverse_cons, List.append_assoc, List.singleton_append, List.length_append, numbered_length, hlen]
+  have e1 : k2 + 1 = k + 1 + (cs.length + 1) + (sepS loose).length := by show k + _ + 1 = _; omega
+  have e2 : (writeItems4 o mk pad loose n (it :: it' :: r)).length =
+      cs.length + 1 + (sepS loose).length + (writeItems4 o mk pad loose (n + 1) (it' :: r)).length := by
+    rw [writeItems4_cons2, hw, ← List.append_assoc, List.length_append, hlen]
+  rw [e1, e2, Bool.or_comm (decide (1 < it.length)) loose]
+  simp only [← Nat.add_assoc, hnext, List.cons_append]
+
+
+/-! ### Nodes that are not lists -/
+
+theorem needs4_cons (t : T4) (rest : List T4) : needs4 (t :: rest) = need4 t + needs4 rest + 14 := by simp [needs4]
+
+theorem node_para (ti : Bool) (ls : List Str) (h : (T4.para ls).ok = true) : NodeClaim ti (.para ls) := by
+  intro k st gas hg _
+  have hp := paraOk_of ls (by simpa [T4.ok, T.ok] using h)
+  obtain ⟨l0, tl, hl, ho⟩ := numbered_ne k ls hp.ne
+  have hs : (l0 :: tl).map (·.s) = ls := by rw [← hl]; exact numbered_s k ls
+  obtain ⟨g, rfl⟩ : ∃ g, gas = g + 14 := ⟨gas - 14, by simp only [need4] at hg; omega⟩
+  have := Props.C14.C14_single_paragraph_default ti l0 tl
+    (fun l hm => hp.inert _ (numbered_mem k ls l (by rw [hl]; exact hm))) (k + 1) st g
+  simp only [write4, touch4, after_false, entry4, hl]
+  rw [hs, ho] at this
+  exact this
+
+theorem node_heading (ti : Bool) (lv : Nat) (t line : Str) (h : (T4.heading lv t line).ok = true) : NodeClaim ti (.heading lv t line) := by
+  intro k st gas hg _
+  have hh := headOk_of lv t line (by simpa [T4.ok, T.ok] using h)
+  obtain ⟨g, rfl⟩ : ∃ g, gas = g + 6 := ⟨gas - 6, by simp only [need4] at hg; omega⟩
+  have := tokenize_heading ti lv t line hh.head (k + 1) (k + 1) st g
+  simp only [write4, touch4, after_false, entry4, numbered_cons, show numbered (k + 1) [] = [] from rfl]
+  exact this
+
+theorem node_hr (ti : Bool) (line : Str) (h : (T4.hr line).ok = true) : NodeClaim ti (.hr line) := by
+  intro k st gas hg _
+  have hh := hrOk_of line (by simpa [T4.ok, T.ok] using h)
+  obtain ⟨g, rfl⟩ : ∃ g, gas = g + 9 := ⟨gas - 9, by simp only [need4] at hg; omega⟩
+  have := tokenize_hr ti line hh.1 (k + 1) (k + 1) st g
+  simp only [write4, touch4, after_false, entry4, numbered_cons, show numbered (k + 1) [] = [] from rfl]
+  exact this
+
+theorem node_quote (ti : Bool) (bare : Bool) (kids : List T4) (h : (T4.quote bare kids).ok = true) (hN : NodesClaim ti kids) :
+    NodeClaim ti (.quote bare kids) := by
+  intro k st gas hg _
+  obtain ⟨hne, hk, hbare, hsxk⟩ := quoteOk4_of bare kids h
+  obtain ⟨g, rfl⟩ : ∃ g, gas = g + 6 := ⟨gas - 6, by simp only [need4] at hg; omega⟩
+  have hg' : needs4 kids ≤ g := by simp only [need4] at hg; omega
+  have ih := hN false k { st with setext := false } g hg' (by rw [hsxk]; exact sxOk_false _)
+  simp only [sepS, Bool.false_eq_true, if_false, List.append_nil, Bool.or_false] at ih
+  have hw := writes4_lineOk kids hk
+  obtain ⟨l0, tl, hl, ho⟩ := numbered_ne k (writes4 kids) (hw.2 hne)
+  rw [hl] at ih
+  simp only [write4, touch4, entry4]
+  have hmem : ∀ l ∈ l0 :: tl, l.s ∈ writes4 kids := fun l hm => numbered_mem k _ l (by rw [hl]; exact hm)
+  cases bare with
+  | false =>
+    have := Props.C04.C04_quote_wraps_default ti l0 tl
+      (fun l hm => lineOk_notab (hw.1 _ (hmem l hm))) (k + 1) st _ g _ ih
+    have e1 : numbered k ((writes4 kids).map qsp) = (l0 :: tl).map quoteSp := by
+      rw [← hl]; exact Props.C04.numbered_map_sp k (writes4 kids)
+    simp only [Bool.false_eq_true, if_false]
+    rw [e1]
+    refine Eq.trans this ?_
+    rw [ho]
+    simp [after]
+  | true =>
+    have := Props.C04.C04_quote_wraps_bare (dcfg ti) [.htmlBlock, .blockCode, .heading]
+      [.codeFence, .thematicBreak, .list, .table, .footnote, .paragraph] rfl (by decide) (by decide) l0 tl
+      (fun l hm => ⟨lineOk_notab (hw.1 _ (hmem l hm)), by
+        have hne' := lineOk_ne (hw.1 _ (hmem l hm))
+        have hsp := hbare rfl _ (hmem l hm)
+        cases hs : l.s with
+        | nil => exact absurd hs hne'
+        | cons c r =>
+          refine ⟨c, r, rfl, ?_⟩
+          intro e; rw [hs, e] at hsp; exact hsp rfl⟩)
+      (k + 1) st _ g _ ih
+    have e1 : numbered k ((writes4 kids).map qbare) = (l0 :: tl).map quoteBare := by
+      rw [← hl]; exact Props.C04.numbered_map_bare k (writes4 kids)
+    simp only [if_true]
+    rw [e1]
+    refine Eq.trans this ?_
+    rw [ho]
+    simp [after]
+
+theorem node_setext (ti : Bool) (lv : Nat) (ls : List Str) (ul : Str) (h : (T4.setext lv ls ul).ok = true) :
+    NodeClaim ti (.setext lv ls ul) := by
+  intro k st gas hg hsx
+  obtain ⟨hp, hu⟩ := setextOk_of lv ls ul h
+  obtain ⟨l0, tl, hl, ho⟩ := numbered_ne k ls hp.ne
+  have hs : (l0 :: tl).map (·.s) = ls := by rw [← hl]; exact numbered_s k ls
+  obtain ⟨g, rfl⟩ : ∃ g, gas = g + 14 := ⟨gas - 14, by simp only [need4] at hg; omega⟩
+  have := tokenize_setext ti lv l0 tl { s := ul, origin := k + ls.length + 1 }
+    (fun l hm => Props.C14.inertLine_quiet _ (hp.inert _ (numbered_mem k ls l (by rw [hl]; exact hm)))) hu (k + 1) st (hsx rfl) g
+  simp only [write4, touch4, after_false, entry4, numbered_append, hl, numbered_cons, show numbered (k + ls.length + 1) [] = [] from rfl]
+  rw [hs, ho] at this
+  exact this
+
+theorem node_table (ti : Bool) (hd : Row) (dl : DRow) (rows : List Row) (h : (T4.leaf (.table hd dl rows)).ok = true) :
+    NodeClaim ti (.leaf (.table hd dl rows)) := by
+  intro k st gas hg _
+  have := tokenize_leaf_table ti hd dl rows (by simpa [T4.ok] using h) k st gas (by simp only [need4] at hg; omega)
+  simp only [write4, touch4, after_false, entry4]
+  exact this
+
+theorem lines_ok_tail (ts : List T4) (h : T4.oks ts = true) (tail : Bool) : ∀ s ∈ writes4 ts ++ sepS tail, LineOk s := by
+  intro s hs
+  rcases List.mem_append.mp hs with hs | hs
+  · exact (writes4_lineOk ts h).1 s hs
+  · cases tail with
+    | false => simp [sepS] at hs
+    | true => simp only [sepS, if_true, List.mem_singleton] at hs; rw [hs]; exact lineOk_nl
+/-- a node that is not a list, alone or before a final "\n" line -/
+theorem nodes_single_closed (ti : Bool) (t : T4) (hok : t.ok = true) (hnl : isOpen4 t = false) (hT : NodeClaim ti t) :
+    NodesClaim ti [t] := by
+  intro tail k st gas hg hsx
+  rw [needs4_cons] at hg
+  cases tail with
+  | false =>
+    have := hT k st gas (by omega) (sxOk_head hsx)
+    simpa [sepS, writes4_single, entries4, touches4] using this
+  | true =>
+    have hA := hT k st (need4 t) (Nat.le_refl _) (sxOk_head hsx)
+    have hw := write4_lineOk t hok
+    obtain ⟨g', hg', heq⟩ := tokenizeBlock_prefix_lists (dcfg ti) (dcfg_noBlank ti) (numbered k (write4 t))
+      { s := ['\n'], origin := k + (write4 t).length + 1 } rfl [] (k + 1) st (need4 t) _ _ hA
+      (by intro e he; simp only [List.getLast?_singleton, Option.some.injEq] at he; subst he; exact closed_entry4 _ t hnl)
+      (numbered_allNlEnd k _ hw.1) 11 (by rw [dcfg_len]; omega)
+    obtain ⟨g'', rfl⟩ : ∃ g'', g' = g'' + 1 := ⟨g' - 1, by omega⟩
+    have hend : FW.peek ⟨numbered k (write4 t) ++ [{ s := ['\n'], origin := k + (write4 t).length + 1 }],
+        (numbered k (write4 t)).length + 1, k + 1⟩ = none := by
+      have := peek_end (numbered k (write4 t) ++ [{ s := ['\n'], origin := k + (write4 t).length + 1 }]) (k + 1)
+      simpa using this
+    simp only [tokLoop, hend] at heq
+    have hbuf : numbered k (writes4 [t] ++ sepS true) =
+        numbered k (write4 t) ++ [{ s := ['\n'], origin := k + (write4 t).length + 1 }] := by
+      rw [writes4_single, numbered_append]; rfl
+    rw [hbuf]
+    refine tokenizeBlock_mono (dcfg ti) _ _ _ _ (need4 t + 11) gas (by omega) ?_
+    rw [heq]
+    simp [entries4, touches4]
+
+
+theorem buf_cons2 (t t' : T4) (r : List T4) (tail : Bool) (k : Nat) :
+    numbered k (writes4 (t :: t' :: r) ++ sepS tail) =
+      numbered k (write4 t) ++ { s := ['\n'], origin := k + (write4 t).length + 1 } ::
+        (numbered k (writes4 (t' :: r) ++ sepS tail)).map (Line.sh ((numbered k (write4 t)).length + 1)) := by
+  rw [writes4_cons2, List.append_assoc, numbered_append, List.cons_append, numbered_cons, numbered_length, ← numbered_sh]
+  have : k + (write4 t).length + 1 = k + ((write4 t).length + 1) := by omega
+  rw [this]
+
+/-- a node that is not a list, a "\n" line, further siblings: C05 -/
+theorem nodes_cons_closed (ti : Bool) (t t' : T4) (r : List T4) (hok : T4.oks (t :: t' :: r) = true) (hnl : isOpen4 t = false)
+    (hT : NodeClaim ti t) (hR : NodesClaim ti (t' :: r)) : NodesClaim ti (t :: t' :: r) := by
+  intro tail k st gas hg hsx
+  rw [needs4_cons] at hg
+  obtain ⟨h1, h2, _⟩ := oks4_cons t (t' :: r) hok
+  have hA := hT k st (need4 t) (Nat.le_refl _) (sxOk_head hsx)
+  have hB := hR tail k (after st (touch4 t)) (gas - need4 t - 11) (by omega) (sxOk_after (sxOk_tail hsx) _)
+  have hwt := write4_lineOk t h1
+  have key := tokenizeBlock_concat_lists (dcfg ti) (dcfg_noBlank ti) (numbered k (write4 t))
+    (numbered k (writes4 (t' :: r) ++ sepS tail)) { s := ['\n'], origin := k + (write4 t).length + 1 } rfl (k + 1) st
+    (need4 t) (gas - need4 t - 11) _ _ _ _ hA
+    (by intro e he; simp only [List.getLast?_singleton, Option.some.injEq] at he; subst he; exact closed_entry4 _ t hnl)
+    hB (numbered_allNlEnd k _ hwt.1) (numbered_allNlEnd k _ (lines_ok_tail _ h2 tail))
+  have hgas : gas = need4 t + (gas - need4 t - 11 + (dcfg ti).types.length + 1) := by rw [dcfg_len]; omega
+  rw [buf_cons2, hgas, key, numbered_length, entries4_shift]
+  have e4 : k + 1 + ((write4 t).length + 1) = k + 1 + (write4 t).length + 1 := by omega
+  simp only [List.singleton_append, entries4, e4, List.length_cons, touches4, after_after]
+  have hl : decide (1 < r.length + 1 + 1) = true := by simp
+  rw [hl]
+  simp
+
+
+/-! ### Lists among the siblings -/
+
+/-- the dispatch loop on the first line of a written list, `post` behind the list: one `List` entry, the cursor on the
+    line behind the list -/
+theorem list_then (ti : Bool) (o : Bool) (n : Nat) (mk : Char) (pad : Nat) (loose : Bool) (items : List (List T4))
+    (hok : (T4.list o n mk pad loose items).ok = true) (hI : ItemsClaim ti o mk pad loose n items)
+    (post : List Line) (hpost : PostOk post) (k : Nat) (st : St) (g : Nat) (hg : needItems4 items ≤ g)
+    (hsx : SxOk (hasSxItems items) st) (acc : List Entry) (lo : Bool) :
+    tokLoop (dcfg ti) (g + 8) ⟨numbered k (write4 (.list o n mk pad loose items)) ++ post, 0, k + 1⟩ st acc lo =
+      tokLoop (dcfg ti) (g + 7)
+        ⟨numbered k (write4 (.list o n mk pad loose items)) ++ post, (write4 (.list o n mk pad loose items)).length, k + 1⟩
+        (after st (touch4 (.list o n mk pad loose items))) (entry4 (k + 1) (.list o n mk pad loose items) :: acc) lo := by
+  have hl := listOk_of o n mk pad loose items hok
+  cases items with
+  | nil => exact absurd rfl hl.ne
+  | cons it rest =>
+    obtain ⟨_, _, hlead, hdoc, htb, _⟩ := okItems_cons o mk pad n it rest hl.its
+    have hm := listLeader_of o _ hlead
+    obtain ⟨c0, cs, hw⟩ : ∃ c0 cs, writes4 it = c0 :: cs := by
+      cases hw : writes4 it with
+      | nil => rw [hw] at hdoc; simp [itemDocOk] at hdoc
+      | cons c0 cs => exact ⟨c0, cs, rfl⟩
+    rw [hw] at htb
+    simp only [List.headD_cons] at htb
+    obtain ⟨tl, htl⟩ := writeItems4_head o mk pad loose n it rest c0 cs hw
+    obtain ⟨c, m'', hmc, hc⟩ := hm.lead
+    have hrl := hI [] post (k + 1) k st g [] none none (by simp) hg hpost (Or.inl ⟨rfl, rfl⟩) hsx
+    simp only [List.nil_append, List.length_nil, Nat.zero_add, List.reverse_nil] at hrl
+    simp only [write4, touch4, entry4]
+    generalize hL : writeItems4 o mk pad loose n (it :: rest) = L at hrl htl ⊢
+    subst htl
+    rw [numbered_cons] at hrl ⊢
+    have hls : ({ s := leaderOf o n mk ++ List.replicate pad ' ' ++ c0, origin := k + 1 } : Line).s =
+        c :: (m'' ++ List.replicate pad ' ' ++ c0) := by
+      show leaderOf o n mk ++ List.replicate pad ' ' ++ c0 = _
+      rw [hmc]; simp
+    have hp := peek_at [] { s := leaderOf o n mk ++ List.replicate pad ' ' ++ c0, origin := k + 1 } (numbered (k + 1) tl ++ post) (k + 1)
+    simp only [List.nil_append, List.length_nil] at hp
+    have hty := tryTypes_lead (dcfg ti)
+      ⟨{ s := leaderOf o n mk ++ List.replicate pad ' ' ++ c0, origin := k + 1 } :: (numbered (k + 1) tl ++ post), 0, k + 1⟩ st
+      _ c _ hls hc htb [.table, .footnote, .paragraph] g [.htmlBlock, .blockCode, .heading, .quote, .codeFence, .thematicBreak]
+      (by decide) (by decide) (by decide)
+    have hstart : listStart (leaderOf o n mk ++ List.replicate pad ' ' ++ c0) = true := listStart_first _ hm pad hl.p1 _
+    have e : g + 8 = (g + 7) + 1 := by omega
+    rw [e]
+    generalize hG : g + 7 = G
+    simp only [tokLoop, List.cons_append, hp]
+    subst hG
+    have hty' : (dcfg ti).types = [.htmlBlock, .blockCode, .heading, .quote, .codeFence, .thematicBreak] ++ .list :: [.table, .footnote, .paragraph] := rfl
+    rw [hty']
+    simp only [List.length_cons, List.length_nil, Nat.zero_add] at hty
+    have e2 : g + 7 = g + 1 + (1 + 1 + 1 + 1 + 1 + 1) := by omega
+    rw [e2, hty]
+    simp only [tryTypes, hstart, if_true]
+    simp only [List.cons_append] at hrl
+    rw [hrl]
+
+
+theorem need4_list (o : Bool) (n : Nat) (mk : Char) (pad : Nat) (loose : Bool) (items : List (List T4)) :
+    need4 (.list o n mk pad loose items) = needItems4 items + 12 := by simp [need4]
+
+/-- a node over which the dispatcher is followed directly: entered on the node's first line, it adds the node's entry and
+    stands on the line behind the node's lines, whenever what follows the node (`post`) satisfies `P` -/
+def ThenClaim (ti : Bool) (t : T4) (gn : Nat) (P : List Line → Prop) : Prop :=
+  ∀ (post : List Line), P post → ∀ (k : Nat) (st : St) (g : Nat), gn ≤ g → SxOk (hasSx t) st → ∀ (acc : List Entry) (lo : Bool),
+    tokLoop (dcfg ti) (g + 8) ⟨numbered k (write4 t) ++ post, 0, k + 1⟩ st acc lo =
+      tokLoop (dcfg ti) (g + 7) ⟨numbered k (write4 t) ++ post, (write4 t).length, k + 1⟩
+        (after st (touch4 t)) (entry4 (k + 1) t :: acc) lo
+
+theorem list_thenClaim (ti : Bool) (o : Bool) (n : Nat) (mk : Char) (pad : Nat) (loose : Bool) (items : List (List T4))
+    (hok : (T4.list o n mk pad loose items).ok = true) (hI : ItemsClaim ti o mk pad loose n items) :
+    ThenClaim ti (.list o n mk pad loose items) (needItems4 items) PostOk :=
+  fun post hpost k st g hg hsx acc lo => list_then ti o n mk pad loose items hok hI post hpost k st g hg hsx acc lo
+
+/-- a fenced code block, whatever follows it -/
+theorem fence_thenClaim (ti : Bool) (ind : Nat) (d info : Str) (body : List Str) (close : Str)
+    (hok : (T4.fence ind d info body close).ok = true) :
+    ThenClaim ti (.fence ind d info body close) 0 (fun _ => True) := by
+  intro post _ k st g _ _ acc lo
+  have hf := fenceFacts_of ind d info body close (by simpa [T4.ok] using hok)
+  obtain ⟨c, hfo⟩ := hf.fo
+  have e : numbered k (write4 (.fence ind d info body close)) =
+      { s := sp ind ++ d ++ info ++ ['\n'], origin := k + 1 } ::
+        (numbered (k + 1) body ++ [{ s := close, origin := k + 1 + body.length + 1 }]) := by
+    simp only [write4, numbered_cons, numbered_append]
+    rfl
+  have h1 := tokLoop_fence_step ti g ind hf.indLt c d info hfo { s := sp ind ++ d ++ info ++ ['\n'], origin := k + 1 }
+    { s := close, origin := k + 1 + body.length + 1 } rfl hf.closes (numbered (k + 1) body)
+    (fun x hx => (hf.body _ (numbered_mem _ _ _ hx)).2) [] post (k + 1) st acc lo
+  rw [e]
+  simp only [touch4, after_false, entry4]
+  have hm : (numbered (k + 1) body).map (fun x => dedent ind x.s) = body.map (dedent ind) :=
+    MdRound.numbered_map_s (k + 1) body (dedent ind)
+  simp only [hm, List.nil_append, List.length_nil, Nat.add_zero] at h1
+  simp only [List.cons_append, List.append_assoc, write4, List.length_cons, List.length_append, List.length_nil,
+    numbered_length] at h1 ⊢
+  exact h1
+
+/-- an indented code block, when what follows it is a `CodeStop` -/
+theorem icode_thenClaim (ti : Bool) (ls : List Str) (hok : (T4.leaf (.icode ls)).ok = true) :
+    ThenClaim ti (.leaf (.icode ls)) 0 CodeStop := by
+  intro post hp k st g _ _ acc lo
+  have := tokLoop_leaf_icode ti ls (by simpa [T4.ok] using hok) post hp k st g acc lo
+  simp only [write4, Leaf.write, touch4, after_false, entry4]
+  exact this
+
+/-- such a node alone in its buffer, or before a final "\n" line -/
+theorem nodes_single_then (ti : Bool) (t : T4) (gn : Nat) (P : List Line → Prop) (hneed : need4 t = gn + 12)
+    (hT : ThenClaim ti t gn P) (hP0 : P []) (hP1 : ∀ nlL : Line, nlL.s = ['\n'] → P [nlL]) :
+    NodesClaim ti [t] := by
+  intro tail k st gas hg hsx
+  rw [needs4_cons, hneed] at hg
+  obtain ⟨g, rfl⟩ : ∃ g, gas = (g + 8) + 1 := ⟨gas - 9, by omega⟩
+  have hgi : gn ≤ g := by simp only [needs4] at hg; omega
+  rw [writes4_single, numbered_append]
+  simp only [tokenizeBlock]
+  cases tail with
+  | false =>
+    have := hT [] hP0 k st g hgi (sxOk_head hsx) [] false
+    simp only [sepS, Bool.false_eq_true, if_false, show ∀ j, numbered j ([] : List Str) = [] from fun _ => rfl]
+    rw [this]
+    have hend := peek_end (numbered k (write4 t) ++ []) (k + 1)
+    simp only [List.length_append, numbered_length, List.length_nil, Nat.add_zero] at hend
+    have e : g + 7 = (g + 6) + 1 := by omega
+    rw [e]
+    simp only [tokLoop, hend]
+    simp [entries4, touches4]
+  | true =>
+    have := hT _ (hP1 { s := ['\n'], origin := k + (write4 t).length + 1 } rfl) k st g hgi (sxOk_head hsx) [] false
+    simp only [sepS, if_true, numbered_cons, show ∀ j, numbered j ([] : List Str) = [] from fun _ => rfl]
+    rw [this]
+    have hp := peek_at (numbered k (write4 t))
+      { s := ['\n'], origin := k + (write4 t).length + 1 } [] (k + 1)
+    rw [numbered_length] at hp
+    have e : g + 7 = (g + 6) + 1 := by omega
+    rw [e]
+    generalize hG : g + 6 = G
+    simp only [tokLoop, hp]
+    rw [tryTypes_nl_none (dcfg ti) _ _ _ rfl _ G (dcfg_noBlank ti) (by rw [dcfg_len]; omega)]
+    simp only
+    obtain ⟨G', rfl⟩ : ∃ G', G = G' + 1 := ⟨G - 1, by omega⟩
+    have hend := peek_end (numbered k (write4 t) ++
+      [{ s := ['\n'], origin := k + (write4 t).length + 1 }]) (k + 1)
+    simp only [List.length_append, numbered_length, List.length_singleton] at hend
+    simp only [tokLoop, FW.next, hend]
+    simp [entries4, touches4]
+
+/-- such a node, a "\n" line, further siblings: the dispatcher goes on behind the "\n" line (`tokLoop_suffix_shift`) -/
+theorem nodes_cons_then (ti : Bool) (t t' : T4) (r : List T4) (gn : Nat) (P : List Line → Prop) (hneed : need4 t = gn + 12)
+    (h2 : T4.oks (t' :: r) = true) (hT : ThenClaim ti t gn P)
+    (hP : ∀ (tail : Bool) (k : Nat), P ({ s := ['\n'], origin := k + (write4 t).length + 1 } ::
+      (numbered k (writes4 (t' :: r) ++ sepS tail)).map (Line.sh ((numbered k (write4 t)).length + 1))))
+    (hR : NodesClaim ti (t' :: r)) :
+    NodesClaim ti (t :: t' :: r) := by
+  intro tail k st gas hg hsx
+  rw [needs4_cons, hneed] at hg
+  obtain ⟨g, rfl⟩ : ∃ g, gas = (g + 8) + 1 := ⟨gas - 9, by omega⟩
+  have hgi : gn ≤ g := by omega
+  have hgr : needs4 (t' :: r) ≤ g + 7 := by omega
+  have hlt := hT _ (hP tail k) k st g hgi (sxOk_head hsx) [] false
+  rw [buf_cons2]
+  simp only [tokenizeBlock]
+  rw [hlt]
+  have hp := peek_at (numbered k (write4 t)) { s := ['\n'], origin := k + (write4 t).length + 1 }
+    ((numbered k (writes4 (t' :: r) ++ sepS tail)).map (Line.sh ((numbered k (write4 t)).length + 1))) (k + 1)
+  have e : g + 7 = (g + 6) + 1 := by omega
+  rw [e]
+  generalize hG : g + 6 = G
+  rw [numbered_length] at hp ⊢
+  simp only [tokLoop, hp]
+  rw [tryTypes_nl_none (dcfg ti) _ _ _ rfl _ G (dcfg_noBlank ti) (by rw [dcfg_len]; omega)]
+  simp only
+  -- behind the "\n" line: the siblings, in a buffer of their own
+  have hB := hR tail k (after st (touch4 t)) (G + 1) (by omega) (sxOk_after (sxOk_tail hsx) _)
+  have hnlB : AllNlEnd (numbered k (writes4 (t' :: r) ++ sepS tail)) := numbered_allNlEnd k _ (lines_ok_tail _ h2 tail)
+  have hsh := tokLoop_suffix_shift (dcfg ti) G (numbered k (write4 t) ++ [{ s := ['\n'], origin := k + (write4 t).length + 1 }])
+    (numbered k (writes4 (t' :: r) ++ sepS tail)) (k + 1) (after st (touch4 t)) [entry4 (k + 1) t] true hnlB
+  simp only [List.length_append, numbered_length, List.length_singleton, List.append_assoc, List.singleton_append] at hsh
+  simp only [FW.next]
+  rw [hsh, hB]
+  simp only [rmap_ok, shB, withAcc]
+  rw [entries4_shift]
+  have e4 : k + 1 + ((write4 t).length + 1) = k + 1 + (write4 t).length + 1 := by omega
+  rw [e4]
+  have hl : decide (1 < (t :: t' :: r).length) = true := by simp
+  rw [hl]
+  simp only [entries4, touches4, after_after, List.reverse_singleton, List.singleton_append, Bool.true_or]
+
+/-- behind a list: the "\n" line and the first line of the next sibling make a `PostOk` -/
+theorem list_post (t t' : T4) (r : List T4) (hl : isList4 t = true) (hok : T4.oks (t :: t' :: r) = true) (tail : Bool) (k : Nat) :
+    PostOk ({ s := ['\n'], origin := k + (write4 t).length + 1 } ::
+      (numbered k (writes4 (t' :: r) ++ sepS tail)).map (Line.sh ((numbered k (write4 t)).length + 1))) := by
+  obtain ⟨_, h2, hsep⟩ := oks4_cons _ (t' :: r) hok
+  have hsep' := hsep t' r rfl
+  obtain ⟨h1', _, _⟩ := oks4_cons t' r h2
+  have hw' := write4_lineOk t' h1'
+  obtain ⟨s0, ss, hs0⟩ : ∃ s0 ss, write4 t' = s0 :: ss := by
+    cases hh : write4 t' with
+    | nil => exact absurd hh hw'.2
+    | cons a b => exact ⟨a, b, rfl⟩
+  have hstop : StopLine s0 := by
+    simp only [sepOk4, hl, Bool.not_true, Bool.false_or, Bool.and_eq_true, hs0, List.headD_cons] at hsep'
+    exact stopLine_of s0 hsep'.1.2 (hw'.1 s0 (by rw [hs0]; simp))
+  have hhead : ∃ ss', writes4 (t' :: r) ++ sepS tail = s0 :: ss' := by
+    cases r with
+    | nil => rw [writes4_single, hs0]; exact ⟨_, rfl⟩
+    | cons a b => rw [writes4_cons2, hs0]; exact ⟨_, rfl⟩
+  obtain ⟨ss', hss'⟩ := hhead
+  refine Or.inr ⟨_, _, rfl, rfl, ?_⟩
+  intro s hs
+  rw [hss', numbered_cons] at hs
+  simp only [List.map_cons, List.head?_cons, Option.some.injEq] at hs
+  subst hs
+  exact hstop
+
+
+/-! ### The induction over the tree -/
+
+theorem nodes_step_closed (ti : Bool) (t : T4) (rest : List T4) (hok : T4.oks (t :: rest) = true) (hnl : isOpen4 t = false)
+    (hT : NodeClaim ti t) (hR : rest ≠ [] → NodesClaim ti rest) : NodesClaim ti (t :: rest) := by
+  cases rest with
+  | nil => exact nodes_single_closed ti t (oks4_cons t [] hok).1 hnl hT
+  | cons t' r => exact nodes_cons_closed ti t t' r hok hnl hT (hR (by simp))
+
+theorem nodes_step_list (ti : Bool) (o : Bool) (n : Nat) (mk : Char) (pad : Nat) (loose : Bool) (items : List (List T4))
+    (rest : List T4) (hok : T4.oks (.list o n mk pad loose items :: rest) = true)
+    (hI : ItemsClaim ti o mk pad loose n items) (hR : rest ≠ [] → NodesClaim ti rest) :
+    NodesClaim ti (.list o n mk pad loose items :: rest) := by
+  have hT := list_thenClaim ti o n mk pad loose items (oks4_cons _ _ hok).1 hI
+  cases rest with
+  | nil =>
+    exact nodes_single_then ti _ _ PostOk (need4_list ..) hT (Or.inl rfl) (fun nlL h => Or.inr ⟨nlL, [], rfl, h, by simp⟩)
+  | cons t' r =>
+    exact nodes_cons_then ti _ t' r _ PostOk (need4_list ..) (oks4_cons _ _ hok).2.1 hT
+      (fun tail k => list_post _ t' r rfl hok tail k) (hR (by simp))
+
+/-- behind an indented code block: the "\n" line and the first line of the next sibling make a `CodeStop` -/
+theorem icode_post (t t' : T4) (r : List T4) (hc : isCode4 t = true) (hok : T4.oks (t :: t' :: r) = true) (tail : Bool) (k : Nat) :
+    CodeStop ({ s := ['\n'], origin := k + (write4 t).length + 1 } ::
+      (numbered k (writes4 (t' :: r) ++ sepS tail)).map (Line.sh ((numbered k (write4 t)).length + 1))) := by
+  obtain ⟨_, h2, hsep⟩ := oks4_cons _ (t' :: r) hok
+  have hsep' := hsep t' r rfl
+  obtain ⟨h1', _, _⟩ := oks4_cons t' r h2
+  have hw' := write4_lineOk t' h1'
+  obtain ⟨s0, ss, hs0⟩ : ∃ s0 ss, write4 t' = s0 :: ss := by
+    cases hh : write4 t' with
+    | nil => exact absurd hh hw'.2
+    | cons a b => exact ⟨a, b, rfl⟩
+  simp only [sepOk4, hc, Bool.not_true, Bool.false_or, Bool.and_eq_true, hs0, List.headD_cons, Bool.not_eq_eq_eq_not] at hsep'
+  have hhead : ∃ ss', writes4 (t' :: r) ++ sepS tail = s0 :: ss' := by
+    cases r with
+    | nil => rw [writes4_single, hs0]; exact ⟨_, rfl⟩
+    | cons a b => rw [writes4_cons2, hs0]; exact ⟨_, rfl⟩
+  obtain ⟨ss', hss'⟩ := hhead
+  refine Or.inr ⟨_, _, rfl, rfl, ?_⟩
+  intro x hx
+  rw [hss', numbered_cons] at hx
+  simp only [List.map_cons, List.head?_cons, Option.some.injEq] at hx
+  subst hx
+  exact ⟨hsep'.2.1, hsep'.2.2⟩
+
+theorem nodes_step_icode (ti : Bool) (ls : List Str)
+    (rest : List T4) (hok : T4.oks (.leaf (.icode ls) :: rest) = true)
+    (hR : rest ≠ [] → NodesClaim ti rest) :
+    NodesClaim ti (.leaf (.icode ls) :: rest) := by
+  have hT := icode_thenClaim ti ls (oks4_cons _ _ hok).1
+  cases rest with
+  | nil => exact nodes_single_then ti _ 0 _ rfl hT (Or.inl rfl) (fun nlL h => Or.inr ⟨nlL, [], rfl, h, by simp⟩)
+  | cons t' r =>
+    exact nodes_cons_then ti _ t' r 0 _ rfl (oks4_cons _ _ hok).2.1 hT (fun tail k => icode_post _ t' r rfl hok tail k) (hR (by simp))
+
+theorem nodes_step_fence (ti : Bool) (ind : Nat) (d info : Str) (body : List Str) (close : Str)
+    (rest : List T4) (hok : T4.oks (.fence ind d info body close :: rest) = true)
+    (hR : rest ≠ [] → NodesClaim ti rest) :
+    NodesClaim ti (.fence ind d info body close :: rest) := by
+  have hT := fence_thenClaim ti ind d info body close (oks4_cons _ _ hok).1
+  cases rest with
+  | nil => exact nodes_single_then ti _ 0 _ rfl hT trivial (fun _ _ => trivial)
+  | cons t' r => exact nodes_cons_then ti _ t' r 0 _ rfl (oks4_cons _ _ hok).2.1 hT (fun _ _ => trivial) (hR (by simp))
+
+theorem items_step (ti : Bool) (o : Bool) (mk : Char) (pad : Nat) (loose : Bool) (n : Nat) (it : List T4) (rest : List (List T4))
+    (h1 : 1 ≤ pad) (h4 : pad ≤ 4) (hok : T4.okItems o mk pad n (it :: rest) = true) (hN : NodesClaim ti it)
+    (hR : rest ≠ [] → ItemsClaim ti o mk pad loose (n + 1) rest) : ItemsClaim ti o mk pad loose n (it :: rest) := by
+  cases rest with
+  | nil => exact items_last ti o mk pad loose n it h1 h4 hok hN
+  | cons it' r => exact items_cons ti o mk pad loose n it it' r h1 h4 hok hN (hR (by simp))
+
+mutual
+/-- **siblings** (any nodes of the fragment), in a buffer of their own -/
+theorem nodes_claim (ti : Bool) : ∀ (ts : List T4), T4.oks ts = true → ts ≠ [] → NodesClaim ti ts
+  | [], _, hne => absurd rfl hne
+  | .para ls :: rest, h, _ =>
+    nodes_step_closed ti _ rest h rfl (node_para ti ls (oks4_cons _ _ h).1)
+      (fun hne => nodes_claim ti rest (oks4_cons _ _ h).2.1 hne)
+  | .heading lv t line :: rest, h, _ =>
+    nodes_step_closed ti _ rest h rfl (node_heading ti lv t line (oks4_cons _ _ h).1)
+      (fun hne => nodes_claim ti rest (oks4_cons _ _ h).2.1 hne)
+  | .hr line :: rest, h, _ =>
+    nodes_step_closed ti _ rest h rfl (node_hr ti line (oks4_cons _ _ h).1)
+      (fun hne => nodes_claim ti rest (oks4_cons _ _ h).2.1 hne)
+  | .quote bare kids :: rest, h, _ =>
+    nodes_step_closed ti _ rest h rfl
+      (node_quote ti bare kids (oks4_cons _ _ h).1
+        (nodes_claim ti kids (quoteOk4_of bare kids (oks4_cons _ _ h).1).2.1 (quoteOk4_of bare kids (oks4_cons _ _ h).1).1))
+      (fun hne => nodes_claim ti rest (oks4_cons _ _ h).2.1 hne)
+  | .list o n mk pad loose items :: rest, h, _ =>
+    have hl := listOk_of o n mk pad loose items (oks4_cons _ _ h).1
+    nodes_step_list ti o n mk pad loose items rest h
+      (items_claim ti o mk pad loose hl.p1 hl.p4 n items hl.its hl.ne)
+      (fun hne => nodes_claim ti rest (oks4_cons _ _ h).2.1 hne)
+  | .fence ind d info body close :: rest, h, _ =>
+    nodes_step_fence ti ind d info body close rest h
+      (fun hne => nodes_claim ti rest (oks4_cons _ _ h).2.1 hne)
+  | .setext lv ls ul :: rest, h, _ =>
+    nodes_step_closed ti _ rest h rfl (node_setext ti lv ls ul (oks4_cons _ _ h).1)
+      (fun hne => nodes_claim ti rest (oks4_cons _ _ h).2.1 hne)
+  | .leaf (.table hd dl rows) :: rest, h, _ =>
+    nodes_step_closed ti _ rest h rfl (node_table ti hd dl rows (oks4_cons _ _ h).1)
+      (fun hne => nodes_claim ti rest (oks4_cons _ _ h).2.1 hne)
+  | .leaf (.icode ls) :: rest, h, _ =>
+    nodes_step_icode ti ls rest h
+      (fun hne => nodes_claim ti rest (oks4_cons _ _ h).2.1 hne)
+/-- **the items of a list**, anywhere in a buffer -/
+theorem items_claim (ti : Bool) (o : Bool) (mk : Char) (pad : Nat) (loose : Bool) (h1 : 1 ≤ pad) (h4 : pad ≤ 4) :
+    ∀ (n : Nat) (items : List (List T4)), T4.okItems o mk pad n items = true → items ≠ [] → ItemsClaim ti o mk pad loose n items
+  | _, [], _, hne => absurd rfl hne
+  | n, it :: rest, h, _ =>
+    items_step ti o mk pad loose n it rest h1 h4 h
+      (nodes_claim ti it (okItems_cons o mk pad n it rest h).2.1 (okItems_cons o mk pad n it rest h).1)
+      (fun hne => items_claim ti o mk pad loose h1 h4 (n + 1) rest (okItems_cons o mk pad n it rest h).2.2.2.2.2 hne)
+end
+
+
+/-- **the block phase of a written document** -/
+theorem blockPhase_writes4 (ti : Bool) (ts : List T4) (h : T4.oks ts = true) (hne : ts ≠ []) (gas : Nat) (hg : needs4 ts ≤ gas) :
+    blockPhase (dcfg ti) gas (writes4 ts) =
+      .ok ({ entries := entries4 1 ts, loose := decide (1 < ts.length) }, {}) := by
+  have e : blockPhase (dcfg ti) gas (writes4 ts) = tokenizeBlock (dcfg ti) gas (numbered 0 (writes4 ts)) 1 {} := rfl
+  rw [e]
+  have := nodes_claim ti ts h hne false 0 {} gas hg (fun _ => rfl)
+  simp only [sepS, Bool.false_eq_true, if_false, List.append_nil, Nat.zero_add, Bool.or_false] at this
+  rw [this]
+  simp [after]
+
+
+
+/-! ### The block token constructors on the expected entries -/
+
+open Mistletoe.Document (joinNl mkBlock mkBlocks mkItems)
+open Mistletoe.Html Mistletoe.Escape
+open Mistletoe.InertInline (flat_append flat_prose)
+open Mistletoe.ComposeL (itemLooseB listHtml flat_cons2 flat_list flat_li_open flat_li_close flat_li_empty flat_if_nl
+  flat_item2_nil flat_item2_cons listHtml_ne mkBlock_of_single2)
+
+mutual
+/-- the block token expected for a node whose first line is line `n` -/
+def block4 (n : Nat) : T4 → Mistletoe.Block
+  | .para ls => .paragraph (proseInlines (ls.map strip)) n
+  | .heading lv t line => .heading lv (closingOf line) [.rawText t] n
+  | .hr line => .thematicBreak (Document.stripNl line) n
+  | .quote _ kids => .quote (blocks4 n kids) n
+  | .list o s mk pad loose items => .list loose (if o then some s else none) (itemBlocks4 o mk pad loose s n items) n
+  | .fence ind d info body _ => .codeFence (langOf info) ind d info (body.map (dedent ind)).flatten n
+  | .setext lv ls ul => .setextHeading lv (rstrip ul) (proseInlines (ls.map strip)) n
+  | .leaf l => l.block n
+def blocks4 (n : Nat) : List T4 → List Mistletoe.Block
+  | [] => []
+  | t :: rest => block4 n t :: blocks4 (n + (write4 t).length + 1) rest
+def itemBlocks4 (o : Bool) (mk : Char) (pad : Nat) (loose : Bool) (s : Nat) (n : Nat) : List (List T4) → List Mistletoe.Block
+  | [] => []
+  | it :: rest =>
+    .listItem (leaderOf o s mk) 0 ((leaderOf o s mk).length + pad) ((loose && !rest.isEmpty) || decide (1 < it.length)) (blocks4 n it) n
+      :: itemBlocks4 o mk pad loose (s + 1) (n + (writes4 it).length + (sepS loose).length) rest
+end
+
+/-- the looseness `List.__init__` computes from the items -/
+def itemsLoose4 (loose : Bool) : List (List T4) → Bool
+  | [] => false
+  | it :: rest => ((loose && !rest.isEmpty) || decide (1 < it.length)) || itemsLoose4 loose rest
+
+theorem any_itemBlocks4 (o : Bool) (mk : Char) (pad : Nat) (loose : Bool) : ∀ (s n : Nat) (items : List (List T4)),
+    (itemBlocks4 o mk pad loose s n items).any itemLooseB = itemsLoose4 loose items
+  | _, _, [] => rfl
+  | s, n, it :: rest => by
+    simp only [itemBlocks4, List.any_cons, itemLooseB, itemsLoose4, any_itemBlocks4 o mk pad loose _ _ rest]
+
+theorem itemsLoose4_false : ∀ (items : List (List T4)), items.all (fun it => it.length == 1) = true → itemsLoose4 false items = false
+  | [], _ => rfl
+  | it :: rest, h => by
+    simp only [List.all_cons, Bool.and_eq_true, beq_iff_eq] at h
+    simp only [itemsLoose4, Bool.false_and, Bool.false_or, h.1, itemsLoose4_false rest h.2]
+    decide
+
+/-- `loose` is the looseness the constructor computes -/
+theorem itemsLoose4_eq (loose : Bool) (items : List (List T4))
+    (h : (if loose then decide (2 ≤ items.length) || items.any (fun it => decide (1 < it.length))
+          else items.all (fun it => it.length == 1)) = true) : itemsLoose4 loose items = loose := by
+  cases loose with
+  | false => exact itemsLoose4_false items (by simpa using h)
+  | true =>
+    simp only [if_true, Bool.or_eq_true, decide_eq_true_eq, List.any_eq_true] at h
+    cases items with
+    | nil =>
+      rcases h with h | ⟨x, hx, _⟩
+      · simp at h
+      · simp at hx
+    | cons it rest =>
+      cases rest with
+      | cons it' r => simp [itemsLoose4]
+      | nil =>
+        rcases h with h | ⟨x, hx, hx2⟩
+        · simp at h
+        · simp only [List.mem_singleton] at hx
+          subst hx
+          simp [itemsLoose4, hx2]
+
+mutual
+theorem mkBlock_entry4 (cfg : Document.Cfg) (fn : Footnotes.Table) (ht : ∀ t ∈ cfg.span, inertClass t = true)
+    (hc : cfg.span.count .lineBreak = 1) : ∀ (t : T4), t.ok = true → ∀ (n : Nat),
+    mkBlock cfg fn (entry4 n t) = .ok (some (block4 n t))
+  | .para ls, h, n => by
+    have hp := paraOk_of ls (by simpa [T4.ok, T.ok] using h)
+    exact mkBlock_of_single2 cfg fn _ _ (InertInline.mkBlocks_prose cfg fn ls n n ht hc hp.ne hp.prose hp.body)
+  | .heading lv t line, h, n => by
+    have hh := headOk_of lv t line (by simpa [T4.ok, T.ok] using h)
+    have hin : Document.inl cfg fn t = .ok [.rawText t] := InertInline.tokenizeInner_inert cfg.span fn t ht hh.inert hh.ne
+    simp only [entry4, block4, mkBlock, hin]
+  | .hr line, h, n => by
+    simp only [entry4, block4, mkBlock]
+  | .quote bare kids, h, n => by
+    obtain ⟨_, hk, _⟩ := quoteOk4_of bare kids h
+    simp only [entry4, block4, mkBlock, mkBlocks_entries4 cfg fn ht hc kids hk n]
+  | .list o s mk pad loose items, h, n => by
+    have hl := listOk_of o s mk pad loose items h
+    have hits := mkItems_items4 cfg fn ht hc o mk pad loose s n items hl.its
+    simp only [entry4, block4, mkBlock, hits]
+    cases items with
+    | nil => exact absurd rfl hl.ne
+    | cons it rest =>
+      obtain ⟨_, _, hlead, _⟩ := okItems_cons o mk pad s it rest hl.its
+      simp only [items4]
+      have hany := any_itemBlocks4 o mk pad loose s n (it :: rest)
+      rw [itemsLoose4_eq loose _ hl.looseC] at hany
+      have hA : ∀ (f : Mistletoe.Block → Bool), (∀ b, f b = itemLooseB b) →
+          (itemBlocks4 o mk pad loose s n (it :: rest)).any f = loose := by
+        intro f hf
+        refine Eq.trans ?_ hany
+        congr 1; funext b; exact hf b
+      rw [hA _ (by intro b; cases b <;> rfl)]
+      cases o with
+      | false => simp [leaderOf]
+      | true =>
+        obtain ⟨d, e, hd, _, h1, _, _⟩ := leaderOk_ordered _ hlead
+        simp only [leaderOf, if_true] at hd ⊢
+        have e1 : natDigits s = d := (List.append_inj' hd (by simp)).1
+        have hne : ((natDigits s ++ [mk]).length != 1) = true := by
+          rw [e1]; simp only [List.length_append, List.length_singleton, bne_iff_ne, ne_eq]; omega
+        simp only [hne, if_true, List.dropLast_concat, hl.start rfl]
+  | .fence ind d info body close, h, n => by
+    simp only [entry4, block4, mkBlock, langOf]
+  | .setext lv ls ul, h, n => by
+    obtain ⟨hp, hu⟩ := setextOk_of lv ls ul h
+    have hin : Document.inl cfg fn (joinNl (ls.map strip)) = .ok (proseInlines (ls.map strip)) := by
+      unfold Document.inl
+      exact InertInline.tokenizeInner_lines cfg.span fn _ ht hc (by simpa using hp.ne) (InertInline.lineOk_of_prose ls hp.prose hp.body) hp.body
+    have hlv : (if (rstrip ul).getLast? == some '=' then 1 else 2) = lv := by
+      have := hu.lvl
+      rcases hu.lv12 with rfl | rfl
+      · simp only [beq_self_eq_true] at this; simp [this]
+      · have e : ((2 : Nat) == 1) = false := by decide
+        rw [e] at this; simp [this]
+    simp only [entry4, block4, mkBlock, List.getLast?_concat, List.dropLast_concat, hin, hlv]
+  | .leaf l, h, n => by
+    simp only [entry4, block4]
+    exact mkBlock_leaf cfg fn ht l (by simpa [T4.ok] using h) n
+theorem mkBlocks_entries4 (cfg : Document.Cfg) (fn : Footnotes.Table) (ht : ∀ t ∈ cfg.span, inertClass t = true)
+    (hc : cfg.span.count .lineBreak = 1) : ∀ (ts : List T4), T4.oks ts = true → ∀ (n : Nat),
+    mkBlocks cfg fn (entries4 n ts) = .ok (blocks4 n ts)
+  | [], _, _ => by simp [entries4, blocks4, mkBlocks]
+  | t :: rest, h, n => by
+    obtain ⟨h1, h2, _⟩ := oks4_cons t rest h
+    simp only [entries4, blocks4, mkBlocks, mkBlock_entry4 cfg fn ht hc t h1 n,
+      mkBlocks_entries4 cfg fn ht hc rest h2 _]
+theorem mkItems_items4 (cfg : Document.Cfg) (fn : Footnotes.Table) (ht : ∀ t ∈ cfg.span, inertClass t = true)
+    (hc : cfg.span.count .lineBreak = 1) (o : Bool) (mk : Char) (pad : Nat) (loose : Bool) : ∀ (s n : Nat) (items : List (List T4)),
+    T4.okItems o mk pad s items = true →
+    mkItems cfg fn (items4 o mk pad loose s n items) = .ok (itemBlocks4 o mk pad loose s n items)
+  | _, _, [], _ => by simp [items4, itemBlocks4, mkItems]
+  | s, n, it :: rest, h => by
+    obtain ⟨_, hit, _, _, _, hrest⟩ := okItems_cons o mk pad s it rest h
+    simp only [items4, itemBlocks4, mkItems, mkBlocks_entries4 cfg fn ht hc it hit n,
+      mkItems_items4 cfg fn ht hc o mk pad loose _ _ rest hrest]
+end
+
+/-- **`Document(lines)` on a written document** -/
+theorem parseLines_writes4 (cfg : Document.Cfg) (ti : Bool) (hb : cfg.block = dcfg ti)
+    (ht : ∀ t ∈ cfg.span, inertClass t = true) (hc : cfg.span.count .lineBreak = 1)
+    (ts : List T4) (h : T4.oks ts = true) (hne : ts ≠ []) (gas : Nat) (hg : needs4 ts ≤ gas) :
+    Document.parseLines cfg gas (writes4 ts) = .ok { kids := blocks4 1 ts, footnotes := [] } := by
+  unfold Document.parseLines
+  rw [hb, blockPhase_writes4 ti ts h hne gas hg]
+  simp only
+  rw [mkBlocks_entries4 cfg _ ht hc ts h 1]
+  rfl
+
+
+/-! ### HTML written directly from the tree -/
+
+def isPara4 : T4 → Bool
+  | .para _ => true
+  | _ => false
+
+def itemHtml4 (s : Bool) (it : List T4) (inner : Str) : Str :=
+  match it with
+  | [] => "<li></li>".toList
+  | first :: _ =>
+    "<li>".toList ++ (if s && isPara4 first then [] else ['\n']) ++ inner
+      ++ (if s && (it.getLast?.map isPara4).getD false then [] else ['\n']) ++ "</li>".toList
+
+mutual
+/-- the HTML of one node; `s`: directly inside an item of a tight list -/
+def html4 (q : Quotes) (s : Bool) : T4 → Str
+  | .para ls => if s then escapeHtmlText q.dq q.sq (joinNl (ls.map strip)) else paraHtml q ls
+  | .heading lv t _ => headHtml q lv t
+  | .hr _ => hrHtml
+  | .quote _ kids => quoteHtml (htmlAfter4 q kids)
+  | .list o st _ _ loose items => listHtml o st (htmlItems4 q (!loose) items)
+  | .fence ind _ info body _ => fenceHtml q (langOf info) (body.map (dedent ind)).flatten
+  | .setext lv ls _ => headHtml q lv (joinNl (ls.map strip))
+  | .leaf l => l.html q
+/-- nodes, each followed by a newline (document, quote) -/
+def htmlAfter4 (q : Quotes) : List T4 → Str
+  | [] => []
+  | t :: rest => html4 q false t ++ '\n' :: htmlAfter4 q rest
+/-- nodes separated by newlines (list item) -/
+def htmlSep4 (q : Quotes) (s : Bool) : List T4 → Str
+  | [] => []
+  | t :: rest =>
+    match rest with
+    | [] => html4 q s t
+    | _ :: _ => html4 q s t ++ '\n' :: htmlSep4 q s rest
+/-- items separated by newlines -/
+def htmlItems4 (q : Quotes) (s : Bool) : List (List T4) → Str
+  | [] => []
+  | it :: rest =>
+    match rest with
+    | [] => itemHtml4 s it (htmlSep4 q s it)
+    | _ :: _ => itemHtml4 s it (htmlSep4 q s it) ++ '\n' :: htmlItems4 q s rest
+end
+
+/-- the HTML of the document -/
+def htmlOf4 (o : Opts) (ts : List T4) : Str := htmlAfter4 o.q ts
+
+theorem isParagraph_block4 (n : Nat) : ∀ (t : T4), isParagraph (block4 n t) = isPara4 t
+  | .para _ => rfl
+  | .heading _ _ _ => rfl
+  | .hr _ => rfl
+  | .quote _ _ => rfl
+  | .list .. => rfl
+  | .fence .. => rfl
+  | .setext .. => rfl
+  | .leaf (.table ..) => rfl
+  | .leaf (.icode _) => rfl
+
+theorem blocks4_getLast : ∀ (ts : List T4) (n : Nat),
+    ((blocks4 n ts).getLast?.map isParagraph).getD false = (ts.getLast?.map isPara4).getD false
+  | [], _ => rfl
+  | [t], n => by simp [blocks4, isParagraph_block4]
+  | t :: t' :: r, n => by
+    have ih := blocks4_getLast (t' :: r) (n + (write4 t).length + 1)
+    simp only [blocks4, List.getLast?_cons_cons] at ih ⊢
+    exact ih
+
+theorem itemHtml_nil (s : Bool) (inner : Str) : itemHtml4 s [] inner = "<li></li>".toList := rfl
+theorem itemHtml_cons (s : Bool) (first : T4) (rest : List T4) (inner : Str) : itemHtml4 s (first :: rest) inner =
+    "<li>".toList ++ (if s && isPara4 first then [] else ['\n']) ++ inner
+      ++ (if s && ((first :: rest).getLast?.map isPara4).getD false then [] else ['\n']) ++ "</li>".toList := rfl
+
+theorem flat_item4 (q : Quotes) (s : Bool) (it : List T4) (n : Nat) (ld : Str) (ind pre : Nat) (lo : Bool)
+    (h : flat (renderSep q s (blocks4 n it)) = htmlSep4 q s it) :
+    flat (renderBlock q s (.listItem ld ind pre lo (blocks4 n it) n)) = itemHtml4 s it (htmlSep4 q s it) := by
+  cases it with
+  | nil =>
+    simp only [blocks4]
+    rw [itemHtml_nil]
+    exact flat_item2_nil q s n ld ind pre lo
+  | cons first rest =>
+    have hlast := blocks4_getLast (first :: rest) n
+    simp only [blocks4] at h hlast
+    simp only [blocks4]
+    rw [itemHtml_cons, flat_item2_cons, h, hlast, isParagraph_block4]
+
+theorem htmlItems_cons2 (q : Quotes) (s : Bool) (it it' : List T4) (r : List (List T4)) :
+    htmlItems4 q s (it :: it' :: r) = itemHtml4 s it (htmlSep4 q s it) ++ '\n' :: htmlItems4 q s (it' :: r) := by
+  simp [htmlItems4]
+
+mutual
+theorem flat_block4 (q : Quotes) : ∀ (t : T4) (s : Bool) (n : Nat), flat (renderBlock q s (block4 n t)) = html4 q s t
+  | .para ls, s, n => by
+    simp only [block4, html4, paraHtml, renderBlock]
+    cases s with
+    | true => simp only [if_true, flat_prose]
+    | false =>
+      simp only [Bool.false_eq_true, if_false, flat_append, flat_prose]
+      simp [flat, flatEv, flatAttrs]
+  | .heading lv t line, s, n => by
+    simp only [block4, html4, headHtml]
+    simp only [renderBlock, renderInlines, renderInline, flat_cons2, Compose.flat_nil,
+      flatEv, flatAttrs, List.append_nil, List.append_assoc, List.cons_append, List.nil_append]
+  | .hr line, s, n => by
+    simp only [block4, html4, hrHtml, renderBlock]
+    decide
+  | .quote _ kids, s, n => by
+    simp only [block4, html4]
+    simp only [renderBlock, flat_append, flat_after4 q kids n]
+    generalize htmlAfter4 q kids = x
+    have h1 : flat [Ev.otag "blockquote".toList [], nl] = ['<', 'b', 'l', 'o', 'c', 'k', 'q', 'u', 'o', 't', 'e', '>', '\n'] := by
+      decide +kernel
+    have h2 : flat [Ev.ctag "blockquote".toList] = ['<', '/', 'b', 'l', 'o', 'c', 'k', 'q', 'u', 'o', 't', 'e', '>'] := by
+      decide +kernel
+    rw [h1, h2, quoteHtml]
+  | .list o st mk pad loose items, s, n => by
+    simp only [block4, html4]
+    rw [flat_list, flat_items4 q o mk pad loose (!loose) items st n]
+  | .fence ind d info body close, s, n => by
+    simp only [block4, html4, renderBlock]
+    exact flat_fence q _ _
+  | .setext lv ls ul, s, n => by
+    simp only [block4, html4, headHtml]
+    simp only [renderBlock, flat_append, flat_prose, flat_cons2, Compose.flat_nil,
+      flatEv, flatAttrs, List.append_nil, List.append_assoc, List.cons_append, List.nil_append]
+  | .leaf l, s, n => by
+    simp only [block4, html4]
+    exact flat_leaf q s n l
+theorem flat_after4 (q : Quotes) : ∀ (ts : List T4) (n : Nat),
+    flat (renderAfterEach q false (blocks4 n ts)) = htmlAfter4 q ts
+  | [], _ => by simp [blocks4, renderAfterEach, htmlAfter4, flat]
+  | t :: rest, n => by
+    simp only [blocks4, htmlAfter4]
+    simp only [renderAfterEach, flat_append, flat_block4 q t false n, flat_after4 q rest _]
+    simp [flat, flatEv, nl]
+theorem flat_sep4 (q : Quotes) (s : Bool) : ∀ (ts : List T4) (n : Nat),
+    flat (renderSep q s (blocks4 n ts)) = htmlSep4 q s ts
+  | [], _ => by simp [blocks4, renderSep, htmlSep4, flat]
+  | [t], n => by simp only [blocks4, renderSep, htmlSep4, flat_block4 q t s n]
+  | t :: t' :: r, n => by
+    have ih := flat_sep4 q s (t' :: r) (n + (write4 t).length + 1)
+    simp only [blocks4, htmlSep4] at ih ⊢
+    simp only [renderSep, flat_append, flat_block4 q t s n, ih]
+    simp [flat, flatEv, nl]
+theorem flat_items4 (q : Quotes) (o : Bool) (mk : Char) (pad : Nat) (loose : Bool) (s : Bool) : ∀ (items : List (List T4)) (st n : Nat),
+    flat (renderSep q s (itemBlocks4 o mk pad loose st n items)) = htmlItems4 q s items
+  | [], _, _ => by simp [itemBlocks4, renderSep, htmlItems4, flat]
+  | [it], st, n => by
+    simp only [itemBlocks4, renderSep, htmlItems4]
+    exact flat_item4 q s it n _ _ _ _ (flat_sep4 q s it n)
+  | it :: it' :: r, st, n => by
+    have ih := flat_items4 q o mk pad loose s (it' :: r) (st + 1) (n + (writes4 it).length + (sepS loose).length)
+    rw [htmlItems_cons2, ← ih]
+    simp only [itemBlocks4, renderSep, flat_append]
+    rw [flat_item4 q s it n _ _ _ _ (flat_sep4 q s it n)]
+    simp [flat, flatEv, nl]
+end
+theorem html4_ne (q : Quotes) : ∀ (t : T4), html4 q false t ≠ []
+  | .para _ => by simp [html4, paraHtml]
+  | .heading _ _ _ => by simp [html4, headHtml]
+  | .hr _ => by simp [html4, hrHtml]
+  | .quote _ _ => by simp only [html4]; exact quoteHtml_ne _
+  | .list .. => by simp only [html4]; exact listHtml_ne _ _ _
+  | .fence .. => by simp only [html4]; exact fenceHtml_ne _ _ _
+  | .setext .. => by simp [html4, headHtml]
+  | .leaf l => by simp only [html4]; exact leaf_html_ne q l
+
+/-- **the HTML renderer on the expected document** -/
+theorem render_blocks4 (o : Opts) (ts : List T4) (hne : ts ≠ []) (fn : List (Str × Str × Str)) :
+    render o { kids := blocks4 1 ts, footnotes := fn } = htmlOf4 o ts := by
+  obtain ⟨t, rest, rfl⟩ : ∃ t rest, ts = t :: rest := by
+    cases ts with
+    | nil => exact absurd rfl hne
+    | cons t rest => exact ⟨t, rest, rfl⟩
+  have hk : blocks4 1 (t :: rest) = block4 1 t :: blocks4 (1 + (write4 t).length + 1) rest := by simp [blocks4]
+  have hnonempty : (flat (renderSep o.q false (blocks4 1 (t :: rest)))).isEmpty = false := by
+    rw [hk]
+    cases hr : blocks4 (1 + (write4 t).length + 1) rest with
+    | nil =>
+      simp only [renderSep, flat_block4]
+      simpa using html4_ne o.q t
+    | cons b bs =>
+      simp only [renderSep, flat_append, flat_block4]
+      simp [html4_ne o.q t]
+  have hd : renderDoc o.q { kids := blocks4 1 (t :: rest), footnotes := fn } =
+      renderSep o.q false (blocks4 1 (t :: rest)) ++ [nl] := by
+    simp only [renderDoc, hk]
+    rw [← hk, hnonempty]
+    simp
+  rw [render, hd, flat_append]
+  have : flat [nl] = ['\n'] := rfl
+  rw [this, Compose.flat_sep_afterEach o.q false _ (by rw [hk]; simp), flat_after4]
+  rfl
+
+/-! ### From the text as one `str`, and the bundled HTML configuration -/
+
+/-- **`Document(text)`** for the written lines concatenated into one string -/
+theorem parse_writes4 (cfg : Document.Cfg) (ti : Bool) (hb : cfg.block = dcfg ti)
+    (ht : ∀ t ∈ cfg.span, inertClass t = true) (hc : cfg.span.count .lineBreak = 1)
+    (ts : List T4) (h : T4.oks ts = true) (hne : ts ≠ []) (gas : Nat) (hg : needs4 ts ≤ gas) :
+    Document.parse cfg gas (writes4 ts).flatten = .ok { kids := blocks4 1 ts, footnotes := [] } := by
+  rw [InertInline.parse_lines cfg _ (writes4 ts) (fun l hl => lineOk_oneLine ((writes4_lineOk ts h).1 l hl))]
+  exact parseLines_writes4 cfg ti hb ht hc ts h hne gas hg
+
+/-- **end to end**: `HtmlRenderer(**opts).render(Document(text))` on the written text is the HTML written
+    directly from the tree -/
+theorem renderHtml_writes4 (o : Opts) (ts : List T4) (h : T4.oks ts = true) (hne : ts ≠ []) (gas : Nat) (hg : needs4 ts ≤ gas) :
+    Config.renderHtml o gas (writes4 ts).flatten = some (htmlOf4 o ts) := by
+  unfold Config.renderHtml
+  cases hc : Config.html with
+  | none =>
+    have := Props.C14.C14_config_current.1
+    rw [hc] at this
+    cases this
+  | some cfg =>
+    obtain ⟨hb, ht, hcnt⟩ := Compose.html_config cfg hc
+    simp only
+    rw [parse_writes4 cfg _ hb ht hcnt ts h hne gas hg]
+    simp only
+    rw [render_blocks4 o ts hne]
+
+/-! ### C03 with tables and indented code blocks: the statements
+
+  INSIDE the fragment (tree type `T4`, well-formedness `T4.oks`, decidable): everything `Proofs/ComposeCode.lean` covers
+  (paragraphs of inert lines, ATX and setext headings, thematic breaks, block quotes, bullet and ordered lists nested to any
+  depth, fenced code blocks) and, AT TOP LEVEL, INSIDE QUOTES AND INSIDE LIST ITEMS (as the first or a later block of an
+  item; an indented code block only as a later block), to any depth:
+
+  * TABLES (`Leaf.table hdr del rows`).  Header row, delimiter row, any number of body rows (none included).  A row
+    (`Row`) is written with or without a pipe before the first cell and with or without a pipe behind the last cell,
+    independently for every row; the cells stand between the pipes as written, with any padding of spaces; a cell is not
+    the empty string (an empty cell is written with one space or more); without its padding it is empty or inert one-line
+    text (the C14 inline fragment) without `|` and without a backslash.  The row begins and ends with a visible character
+    and has a `|`.  The delimiter row (`DRow`): per column any number of spaces, an optional colon, one or more hyphens, an
+    optional colon, spaces - `---`, `:--` (both left), `:-:` (centre), `--:` (right) -, with or without the outer pipes.
+    The header has as many cells as the delimiter row.  A body row may have FEWER cells than there are columns - the
+    tree then has empty cells with the columns' alignments in their places - or MORE: the tree then keeps ALL its cells,
+    the extra ones with alignment `None` (`cellsOf`, after `zip_longest`; GFM says "the excess is ignored": recorded
+    finding, see `Proofs/ComposeTable2.lean`).
+  * INDENTED CODE BLOCKS (`Leaf.icode lines`): lines that begin with four spaces and more and have a visible character,
+    and between them any lines of whitespace only (interior blank lines: "\n", or spaces and "\n"); no tabs.  The first
+    and the last line have a visible character.  The content is every line minus its first four columns (a line of
+    whitespace shorter than five characters gives "\n"), joined (`codeContent_eq`).  The next sibling does not begin with
+    four spaces (it would go on the block: `sepOk4`).
+
+  Every block is followed by a "\n" line and the next sibling, or by the end of its container, as in the earlier fragments
+  (so an indented code block never follows a paragraph directly: it would be a lazy continuation line).
+
+  OUTSIDE (in addition to what `Proofs/ComposeCode.lean` lists): rows indented by one to three spaces; cells with
+  backslashes (escaped pipes `\|`), code spans, emphasis, links; a table directly behind a paragraph without a blank line
+  (`Table.interrupt_paragraph`); a header row that is also the first line of another block (`- a | b`: `headFactsB`);
+  inside a list item: interior lines of a code block that consist of spaces only (`itemDocOk`), a code block as the first
+  block of an item; tabs. -/
+
+/-- **The block phase parses a written tree back (tables and indented code blocks included).**  For every well-formed
+    forest `ts`, either `tableInterrupt`, every gas ≥ `needs4 ts`: one entry per top-level node - for a table a `Table`
+    entry with the lines of the table and the number of its first line, for an indented code block a `BlockCode` entry with
+    the lines minus their first four columns, for the other nodes as in `C03_code_block_phase_partial` - every entry
+    reporting the line the writer put it on; no link definition is found. -/
+theorem C03_table_block_phase_partial (ti : Bool) (ts : List T4) (h : T4.oks ts = true) (hne : ts ≠ []) (gas : Nat)
+    (hg : needs4 ts ≤ gas) :
+    blockPhase { types := Props.C14.defaultTypes, tableInterrupt := ti } gas (writes4 ts) =
+      .ok ({ entries := entries4 1 ts, loose := decide (1 < ts.length) }, {}) :=
+  blockPhase_writes4 ti ts h hne gas hg
+
+/-- the same at an arbitrary place: lines numbered from `k + 1`, with or without a final "\n" line, in any state in which
+    `Paragraph.parse_setext` is on if the forest has a setext heading -/
+theorem C03_table_tokenize_partial (ti : Bool) (ts : List T4) (h : T4.oks ts = true) (hne : ts ≠ []) (tail : Bool) (k : Nat) (st : St)
+    (gas : Nat) (hg : needs4 ts ≤ gas) (hs : hasSxs ts = true → st.setext = true) :
+    tokenizeBlock { types := Props.C14.defaultTypes, tableInterrupt := ti } gas (numbered k (writes4 ts ++ sepS tail)) (k + 1) st =
+      .ok ({ entries := entries4 (k + 1) ts, loose := decide (1 < ts.length) || tail },
+           { setext := st.setext || touches4 ts, defs := st.defs }) :=
+  nodes_claim ti ts h hne tail k st gas hg hs
+
+/-- **`Document(lines)` is the tree.**  The document's children are the expected block tokens (`blocks4`): as in
+    `C03_code_document_partial`, and for a table whose first line is line `n` a `Table` token (line `n`) with
+    `column_align` = the alignments of the delimiter cells (`None`, `0`, `1`), `header` = a `TableRow` (line `n`) and
+    `children` = one `TableRow` per body row (lines `n + 2`, `n + 3`, …), every `TableRow` with `row_align` = the column
+    alignments and one `TableCell` per cell (`cellsOf`: padded with empty cells to the number of columns; cells beyond the
+    columns kept, with alignment `None`), every `TableCell` with its alignment, the line of its row and as inline
+    children one `RawText` with the cell's text without its padding (none for an empty cell); for an indented code block a
+    `BlockCode` token with the content; no footnotes. -/
+theorem C03_table_document_partial (cfg : Document.Cfg) (ti : Bool)
+    (hb : cfg.block = { types := Props.C14.defaultTypes, tableInterrupt := ti })
+    (ht : ∀ t ∈ cfg.span, inertClass t = true) (hc : cfg.span.count .lineBreak = 1)
+    (ts : List T4) (h : T4.oks ts = true) (hne : ts ≠ []) (gas : Nat) (hg : needs4 ts ≤ gas) :
+    Document.parseLines cfg gas (writes4 ts) = .ok { kids := blocks4 1 ts, footnotes := [] } ∧
+    Document.parse cfg gas (writes4 ts).flatten = .ok { kids := blocks4 1 ts, footnotes := [] } :=
+  ⟨parseLines_writes4 cfg ti hb ht hc ts h hne gas hg, parse_writes4 cfg ti hb ht hc ts h hne gas hg⟩
+
+/-- **The HTML of the expected document is the HTML written directly from the tree**, for every quote option. -/
+theorem C03_table_render_partial (o : Opts) (ts : List T4) (hne : ts ≠ []) (fn : List (Str × Str × Str)) :
+    render o { kids := blocks4 1 ts, footnotes := fn } = htmlOf4 o ts :=
+  render_blocks4 o ts hne fn
+
+/-- **End to end.**  `HtmlRenderer(**opts).render(Document(text))`, with the token lists the HTML renderer installs in the
+    working tree, on the text written out from a well-formed forest, returns the HTML written directly from the forest
+    (`htmlOf4`): a table is `<table>`, `<thead>` with one `<tr>` of `<th align="…">` cells, `<tbody>` (also when there is
+    no body row) with one `<tr>` of `<td align="…">` cells per body row, `</table>`, every tag on a line of its own,
+    `align` = `left` / `center` / `right`, the cell text escaped (`tableHtml`); an indented code block is `<pre><code>`, the
+    escaped content, `</code></pre>`; everything else as in `C03_code_html_partial`. -/
+theorem C03_table_html_partial (o : Opts) (ts : List T4) (h : T4.oks ts = true) (hne : ts ≠ []) (gas : Nat) (hg : needs4 ts ≤ gas) :
+    Config.renderHtml o gas (writes4 ts).flatten = some (htmlOf4 o ts) :=
+  renderHtml_writes4 o ts h hne gas hg
 
 end Mistletoe.ComposeT
